@@ -5,8 +5,17 @@ FULL STATEMENT (the property; evaluated on every generated case by the harness t
 one theorem for the pairs osu → Quaver, Quaver → osu, O2Jam → osu, O2Jam → Quaver: `osu_to_qua_end_to_end`,
 `qua_to_osu_end_to_end`, `o2j_to_osu_end_to_end`, `o2j_to_qua_end_to_end`; osu → StepMania for the objects in the exact
 regime: `osu_to_sm_objects_partial`; every source into osu / Quaver from the reader's output on:
-`from_abstract_to_osu_partial`, `from_abstract_to_qua_partial`; for the remaining pairs NOT
-proved as one theorem):  for every source file `t` of format A inside the domain of A's reader property, every legal
+`from_abstract_to_osu_partial`, `from_abstract_to_qua_partial`; osu / Quaver / any source → StepMania about the text
+`SMMapSet.write` returns, tempo timeline and `#OFFSET` included, in the exact regime: `osu_to_sm_end_to_end_partial`,
+`qua_to_sm_end_to_end_partial`, `from_abstract_to_sm_partial`; StepMania → osu / Quaver from one `#NOTES` value and the
+parsed header values: `sm_to_osu_end_to_end_partial`, `sm_to_qua_end_to_end_partial`; BMS → osu / Quaver, objects, from the
+file's lines: `bms_to_osu_objects_partial`, `bms_to_qua_objects_partial`; what each `_partial` lacks is spelled out at the
+theorem; osu / Quaver / any source → BMS, objects in the exact regime, shift parameter included:
+`osu_to_bms_objects_partial`, `qua_to_bms_objects_partial`, `convert_write_bms_objects_partial`; O2Jam → StepMania / BMS:
+`o2j_to_sm_end_to_end_partial`, `o2j_to_bms_objects_partial`; StepMania → BMS, BMS → StepMania: `sm_to_bms_objects_partial`,
+`bms_to_sm_objects_partial` — every one of the 16 pairs now has a theorem from the source (file / `#NOTES` value) to the
+written file; the off-grid regime into
+StepMania / BMS and the tempo timeline into BMS are NOT proved as one theorem):  for every source file `t` of format A inside the domain of A's reader property, every legal
 target B and key count B supports,
     `CloseTo eps (res B) (gridExact a) shift a (abs_B (denote_B (write_B (convert_AB (read_A t)))))`   with `a = abs_A (denote_A t)`,
 `res osu = res qua = ms`, `res sm = beat (1/96) (1/192)`, `res bms = beat (1/192) (1/192)`.
@@ -42,6 +51,10 @@ import Reamber.Lemmas.PipelineConv
 import Reamber.Lemmas.PipelineOsuQua
 import Reamber.Lemmas.PipelineQuaOsu
 import Reamber.Lemmas.PipelineGeneric
+import Reamber.Lemmas.PipelineSMRead
+import Reamber.Lemmas.PipelineBMS
+import Reamber.Props.C04
+import Reamber.Props.C05
 import Reamber.Props.C07
 import Reamber.Props.C03
 import Reamber.Props.C01
@@ -618,7 +631,9 @@ def srcOfAbstract (as : List AChart) (svs : Option (List (Rat × Rat))) (setAttr
     (lv : String) : Convert.Src :=
   ⟨setAttrs, as.map (fun a => embA a svs mapAttrs lv)⟩
 
-/-- **any source → osu** (`_partial`: covers StepMania → osu and BMS → osu, where the readers' whole-file theorems — C02
+/-- **any source → osu** (`_partial`: covers StepMania → osu — composed with the reader in `sm_to_osu_end_to_end_partial` —
+but NOT `BMSToOsu.convert`, whose model reads the `sample` column that `embA`'s frames do not have, so its conversion of
+`srcOfAbstract` fails and the statement is empty for it: BMS → osu is `bms_to_osu_objects_partial` over `embBMS`; where the readers' whole-file theorems — C02
 `reader_notes_eq_spec` / `sm_times`, C04 `read_eq_denote` — are stated over their own chart types and the statement "the
 in-memory set is the frames of the denotation's abstract charts `as`" is the hypothesis carried by `srcOfAbstract`):
 for every converter entry without a shift parameter, whenever the converter model succeeds on that set, the file written
@@ -804,5 +819,1245 @@ theorem osu_to_sm_objects_partial (s : Osu.Skeleton) (hwf : s.WF) (lines : List 
   rw [habs] at hh hl'
   exact ⟨paired_of_perm_exact _ (fun a => closeHit_exact_refl _ _ a _ _ rfl) _ _ hh,
          paired_of_perm_exact _ (fun a => closeHold_exact_refl _ a _ _) _ _ hl'⟩
+
+/-! ## … → StepMania, file to file with the tempo timeline and `#OFFSET` (exact regime) -/
+
+theorem tmTail_bpms' (T : Rat) (cur : BcSnap) (rest : List BcSnap) : (tmTail T cur rest).map (·.bpm) = rest.map (·.bpm) := by
+  induction rest generalizing T cur with
+  | nil => rfl
+  | cons n r ih => simp [tmTail, ih]
+
+theorem tmOf_bpms' (t0 : Rat) (cs : List BcSnap) : (tmOf t0 cs).map (·.bpm) = cs.map (·.bpm) := by
+  cases cs with
+  | nil => rfl
+  | cons c rest => simp [tmOf, tmTail_bpms']
+
+/-- **the written `#OFFSET` / `#BPMS` denote the chart's own tempo rows**: when the chart's tempo list `cb` is the
+stored form of the tempo-change list `cs` from `t0` (`C03.ChartWritten`'s `toTimingMap c.bpms = tmOf t0 cs`) and the
+written header denotes `t0` and `cs` (`−1000·#OFFSET = t0`, `changesOf #BPMS = cs`, pairs in beat order), then the tempo
+points of the file's denotation — every `#BPMS` beat integrated over the `#BPMS` segments from `−1000·#OFFSET` — are
+exactly the rows `(time, bpm)` of `cb`, in order. -/
+theorem written_tempo_rows (t0 : Rat) (cs : List BcSnap) (hwf : wfChanges cs = true) (hs : sortedSnaps cs = true)
+    (cb : List (Rat × Rat)) (hb : SM.toTimingMap cb = tmOf t0 cs)
+    (offsetSec : Rat) (wb : List (Rat × Rat)) (ho : -(1000 * offsetSec) = t0) (hbp : SM.changesOf wb = cs)
+    (hsorted : wb.Pairwise (fun x y => decide (x.1 ≤ y.1) = true)) (dc : SM.DChart) :
+    (ofSMChart offsetSec wb dc).bpms = cb := by
+  have hcs : cs = wb.map (fun p => (⟨p.2, 4, SM.snapOfBeat p.1⟩ : BcSnap)) := by
+    rw [← hbp]; unfold SM.changesOf; rw [isort_eq_self _ hsorted]
+  have h1 : cb.map (·.1) = changeTimes t0 cs := by
+    rw [← stored_times_eq_changeTimes t0 cs hwf hs, ← hb]; simp [SM.toTimingMap]
+  have h2 : cb.map (·.2) = cs.map (·.bpm) := by
+    rw [← tmOf_bpms' t0 cs, ← hb]; simp [SM.toTimingMap]
+  have key : ∀ L : List BcSnap, L = wb.map (fun p => (⟨p.2, 4, SM.snapOfBeat p.1⟩ : BcSnap)) →
+      L.map (fun c => timeAt t0 cs c.snap) = wb.map (fun p => timeAt t0 cs (SM.snapOfBeat p.1)) ∧
+      L.map (·.bpm) = wb.map (·.2) := by
+    intro L hL
+    subst hL
+    simp [List.map_map, Function.comp]
+  obtain ⟨k1, k2⟩ := key cs hcs
+  rw [← zip_map_fst_snd cb, h1, h2]
+  show (SM.tempoTimes offsetSec wb).zip (wb.map (·.2)) = _
+  unfold SM.tempoTimes SM.timeOfBeat changeTimes
+  rw [ho, hbp, k1, k2]
+
+/-- non-vacuity: two tempo points on measure lines, `#OFFSET:-0.5` -/
+example :
+    let cs : List BcSnap := [⟨120, 4, ⟨0, 0, some 4⟩⟩, ⟨60, 4, ⟨2, 0, some 4⟩⟩]
+    let wb : List (Rat × Rat) := [(0, 120), (8, 60)]
+    wfChanges cs = true ∧ sortedSnaps cs = true ∧ SM.toTimingMap [(500, 120), (4500, 60)] = tmOf 500 cs ∧
+    -(1000 * (-1/2 : Rat)) = 500 ∧ SM.changesOf wb = cs ∧ wb.Pairwise (fun x y => decide (x.1 ≤ y.1) = true) := by
+  decide +kernel
+
+theorem closeBpm_exact_refl (src : AChart) (a : ABpm) (f g : Rat) :
+    closeBpm 0 (.beat f g) true src a a = true := by
+  have hz : ∀ x : Rat, slack 0 x x = 0 := by intro x; unfold slack; rw [Rat.zero_mul, Rat.add_zero]
+  have h0 : ∀ x : Rat, rabs (x - x) = 0 := by intro x; unfold rabs; rw [Rat.sub_self]; simp
+  have r0 : rabs (0 : Rat) ≤ 0 := by decide +kernel
+  simp [closeBpm, closeTime, eqUpTo, hz, r0]
+
+/-- everything C03 `write_read_exact_show` asks of the one-chart set `[c]` written under the header `h`, plus what ties
+the written header to the chart's tempo list: the header's offset is the time `t0` of the chart's first tempo point
+(`C03.ChartWritten`'s `toTimingMap c.bpms = tmOf t0 cs` puts the first stored point at `t0`; that a converter assigns
+exactly this is `sm_offset_rules` + `offset_established_*`, D14 / D42), the written `#BPMS` pairs denote `cs` and are in
+beat order.  `sh` is Python's number rendering (parameter). -/
+structure SMWritable (sh : SM.Shows) (t0 : Rat) (cs : List BcSnap) (h : SM.WHeader) (c : SM.WChart) (w : SM.Written) :
+    Prop where
+  hsh : SM.ShowsOK sh
+  hsp : SM.ShowsParse sh
+  hwf : wfChanges cs = true
+  hs : sortedSnaps cs = true
+  h0 : firstAtZero cs = true
+  hgc : gridCompatible (grid defaultMaxDiv) cs = true
+  hm : metronomeOk cs = true
+  hM : ∀ c ∈ cs, c.met = 4
+  hw : SM.write h [c] = .ok w
+  hL : ∃ out, C03.ChartWritten t0 cs c out
+  hstr : ∀ ta ∈ SM.stringTags, SM.CleanParam ((h.strs.lookup ta.2).getD [])
+  hch : SM.CleanParam c.chartType ∧ SM.CleanParam c.description ∧ SM.CleanParam c.difficulty ∧
+    '\n' ∉ c.chartType ∧ '\n' ∉ c.difficulty
+  ho : h.offset = t0
+  hbp : SM.changesOf w.bpms = cs
+  hsorted : w.bpms.Pairwise (fun x y => decide (x.1 ≤ y.1) = true)
+
+theorem write_offsetSec (h : SM.WHeader) (charts : List SM.WChart) (w : SM.Written) (hw : SM.write h charts = .ok w) :
+    -(1000 * w.offsetSec) = h.offset := by
+  unfold SM.write at hw
+  cases charts with
+  | nil => cases hw
+  | cons c0 rest =>
+    simp only [bind, Except.bind] at hw
+    split at hw
+    · cases hw
+    · split at hw
+      · cases hw
+      · cases hw
+        simp only [SM.secToMsec]
+        ring
+
+/-- **writer link into StepMania over `AChart`, exact regime** (C03 `write_read_exact_show` + `written_tempo_rows`):
+the text `SMMapSet.write` returns for the chart held by the converted frames `t` has a by-the-book denotation with the
+written `#OFFSET` (= −header offset / 1000) and `#BPMS`, exactly one chart, and that chart's hits, holds AND tempo points
+are exactly those of `t`'s abstract chart. -/
+theorem write_sm_close (sh : SM.Shows) (t0 : Rat) (cs : List BcSnap) (t : Convert.TChart) (a : AChart)
+    (ha : ofTChart t = a) (hcols : ColsNonneg a) (h : SM.WHeader) (ty desc diff : SM.Str) (dv : Int)
+    (groove : List Rat) (w : SM.Written) (H : SMWritable sh t0 cs h (smOfT t ty desc diff dv groove) w) :
+    ∃ d, SM.denote (SM.renderWritten sh w) = some d ∧ d.offsetSec = some w.offsetSec ∧ d.bpms = some w.bpms ∧
+      -(1000 * w.offsetSec) = h.offset ∧ d.chartsWellFormed = true ∧ d.charts.length = 1 ∧
+      ∀ (hd : 0 < d.charts.length),
+        CloseTo 0 (.beat (1 / 96) (1 / 192)) true 0 a (ofSMChart w.offsetSec w.bpms d.charts[0]) := by
+  have hoff := write_offsetSec h _ w H.hw
+  obtain ⟨d, hd, hdo, hdb, hdwf, hlen, hall⟩ := C03.write_read_exact_show sh H.hsh H.hsp t0 cs H.hwf H.hs H.h0 H.hgc
+    H.hm H.hM h [smOfT t ty desc diff dv groove] w H.hw
+    (by intro c hc; simp only [List.mem_singleton] at hc; subst hc; exact H.hL) H.hstr
+    (by intro c hc; simp only [List.mem_singleton] at hc; subst hc; exact H.hch)
+    (by rw [hoff]; exact H.ho) H.hbp
+  refine ⟨d, hd, hdo, hdb, hoff, hdwf, by simpa using hlen, ?_⟩
+  intro hd0
+  obtain ⟨_, hperm⟩ := hall 0 (by simp) hd0
+  obtain ⟨hh, hl'⟩ := ofSMChart_objects t ty desc diff dv groove w.offsetSec w.bpms d.charts[0]
+    (ha ▸ hcols) (by simpa using hperm)
+  obtain ⟨out, keys, _, _, _, hb, _⟩ := H.hL
+  have hbp' : (ofSMChart w.offsetSec w.bpms d.charts[0]).bpms = a.bpms := by
+    rw [written_tempo_rows t0 cs H.hwf H.hs _ hb w.offsetSec w.bpms (by rw [hoff]; exact H.ho) H.hbp H.hsorted]
+    rw [← ha]; rfl
+  rw [ha] at hh hl'
+  refine ⟨paired_of_perm_exact _ (fun x => closeHit_exact_refl _ _ x _ _ rfl) _ _ hh,
+          paired_of_perm_exact _ (fun x => closeHold_exact_refl _ x _ _) _ _ hl', ?_⟩
+  rw [hbp']
+  exact ⟨_, _, List.Perm.refl _, List.Perm.refl _, zipped_refl _ (fun x => closeBpm_exact_refl a x _ _) _⟩
+
+/-- non-vacuity of the hypotheses on the chart side: the chart held by converted frames (two hits, a hold, two tempo points
+on measure lines from 500 ms) has the stored tempo list of `cs` from `t0 = 500` = its first tempo point, a 4-key type,
+nothing before `t0`, and the `#BPMS` pairs the writer emits for it (C15 `write_sm_perm`'s formula) are `0=120, 8=60` —
+the pairs of the example above -/
+example :
+    let th : Convert.Frame := ⟨[0, 1], [("offset", [.num 500, .num 1000]), ("column", [.num 0, .num 3])]⟩
+    let tl : Convert.Frame := ⟨[0], [("offset", [.num 1500]), ("column", [.num 1]), ("length", [.num 500])]⟩
+    let fb : Convert.Frame := ⟨[0, 1], [("offset", [.num 500, .num 4500]), ("bpm", [.num 120, .num 60])]⟩
+    let t : Convert.TChart := ⟨th, tl, fb, none, []⟩
+    let c := smOfT t ['d','a','n','c','e','-','s','i','n','g','l','e'] [] [] 1 []
+    let cs : List BcSnap := [⟨120, 4, ⟨0, 0, some 4⟩⟩, ⟨60, 4, ⟨2, 0, some 4⟩⟩]
+    SM.toTimingMap c.bpms = tmOf 500 cs ∧ firstTempo (ofTChart t) = some 500 ∧
+    c.notes = [⟨.hit, 0, 500, 0⟩, ⟨.hit, 3, 1000, 0⟩, ⟨.hold, 1, 1500, 500⟩] ∧
+    SM.getKeys c.chartType = some 4 ∧
+    (c.notes.all fun n => decide (500 ≤ n.time) && decide (0 ≤ n.length)) = true ∧
+    (c.bpms.map (fun p => (SM.round6 (beatAt 500 cs p.1), p.2)) = [(0, 120), (8, 60)]) := by
+  decide +kernel
+
+/-- **convert, then write as StepMania — every converter entry without a shift parameter** (`_partial`: exact regime):
+for every well-formed source and every (source map, converted chart) pair whose columns are not negative, the text
+`SMMapSet.write` returns for the one-chart set held by the converted frames (`SMWritable`: C03's hypotheses — objects on
+the snap grid — and the header tie) denotes EXACTLY the source map's abstract chart: hits, holds and tempo points. -/
+theorem convert_write_sm_partial : ∀ c ∈ Generated.converters, c.shiftParam = none →
+    ∀ (src : Convert.Src) (k : Int) (out : Convert.Out), (∀ m ∈ src.maps, Convert.srcMapOk m = true) →
+    Convert.convert Convert.tables c src k = .ok out →
+    ∀ p ∈ src.maps.zip out.pairs, ColsNonneg (ofSrcMap p.1) →
+    ∀ (sh : SM.Shows) (t0 : Rat) (cs : List BcSnap) (h : SM.WHeader) (ty desc diff : SM.Str) (dv : Int)
+      (groove : List Rat) (w : SM.Written), SMWritable sh t0 cs h (smOfT p.2.2 ty desc diff dv groove) w →
+      ∃ d, SM.denote (SM.renderWritten sh w) = some d ∧ d.offsetSec = some w.offsetSec ∧ d.bpms = some w.bpms ∧
+        -(1000 * w.offsetSec) = h.offset ∧ d.chartsWellFormed = true ∧ d.charts.length = 1 ∧
+        ∀ (hd : 0 < d.charts.length),
+          CloseTo 0 (.beat (1 / 96) (1 / 192)) true 0 (ofSrcMap p.1) (ofSMChart w.offsetSec w.bpms d.charts[0]) := by
+  intro c hc hns src k out hsrc hconv p hp hcols sh t0 cs h ty desc diff dv groove w H
+  exact write_sm_close sh t0 cs _ _
+    (convert_abstract_eq _ c src k out (Convert.table_static_ok c hc) hns hsrc hconv p hp) hcols h ty desc diff dv groove w H
+
+def quaToSM : Convert.Conv := Convert.conv! "QuaToSM.convert"
+
+theorem quaToSM_entry : quaToSM ∈ Generated.converters ∧ quaToSM.name = "QuaToSM.convert" ∧ quaToSM.shiftParam = none := by
+  decide +kernel
+
+/-- **osu → StepMania, end to end, exact regime** (`_partial`; osu text to the text `SMMapSet.write` returns; reader C01,
+converter C08, writer C03 `write_read_exact_show`): let an osu text of the dialect denote `c0` (key count ≥ 1, columns
+not negative).  Then the reader returns `c0`; whenever the converter model's `OsuToSM.convert` succeeds on the frames of
+`c0`, for every converted chart `t` and every header `h`, chart header, renderer `sh` and written structure `w` with
+`SMWritable` (C03's hypotheses on the chart held by `t`'s frames — C10's domain for the tempo list `cs` from `t0`, every
+object on the snap grid, `EventsOK`, non-overlapping holds, clean header strings, the per-number renderer assumption —
+plus: `h.offset = t0`, i.e. the set's offset is the chart's first tempo point, which is what `sm_offset_rules` +
+`offset_established_first` establish for this converter since D14; the written `#BPMS` denote `cs`, in beat order):
+the text `renderWritten sh w` has a StepMania denotation `d` with `#OFFSET` = −`h.offset`/1000, the written `#BPMS`, one
+well-formed chart, and `CloseTo 0 (beat 1/96 1/192) exact 0 (ofOsu c0) (ofSMChart #OFFSET #BPMS d.charts[0])`: the hits,
+the holds AND the normalised tempo timeline (times included) of the SOURCE FILE are exactly those of the WRITTEN FILE.
+`_partial` because the off-grid regime (`exact = false`, 1/96 beat + 1/192 beat per tempo change) has no writer theorem
+in C03; the full statement is the one in the file header with `exact = gridExact a`. -/
+theorem osu_to_sm_end_to_end_partial (s : Osu.Skeleton) (hwf : s.WF) (lines : List Osu.Str)
+    (hl : lines.map Osu.strip = s.lines) (c0 : Osu.Chart) (hden : Osu.denote lines = .ok c0)
+    (hk : 1 ≤ Osu.pyTrunc c0.md.circleSize) (hcols : ColsNonneg (ofOsu c0))
+    (k : Int) (out : Convert.Out)
+    (hconv : Convert.convert Convert.tables osuToSM ⟨[], [embOsu c0]⟩ k = .ok out) :
+    Osu.read lines = .ok c0 ∧
+    ∀ p ∈ [embOsu c0].zip out.pairs,
+      ∀ (sh : SM.Shows) (t0 : Rat) (cs : List BcSnap) (h : SM.WHeader) (ty desc diff : SM.Str) (dv : Int)
+        (groove : List Rat) (w : SM.Written), SMWritable sh t0 cs h (smOfT p.2.2 ty desc diff dv groove) w →
+        ∃ d, SM.denote (SM.renderWritten sh w) = some d ∧ d.offsetSec = some w.offsetSec ∧ d.bpms = some w.bpms ∧
+          -(1000 * w.offsetSec) = h.offset ∧ d.chartsWellFormed = true ∧ d.charts.length = 1 ∧
+          ∀ (hd : 0 < d.charts.length),
+            CloseTo 0 (.beat (1 / 96) (1 / 192)) true 0 (ofOsu c0) (ofSMChart w.offsetSec w.bpms d.charts[0]) := by
+  obtain ⟨hc, _, hns⟩ := osuToSM_entry
+  refine ⟨Osu.read_eq_denote s hwf lines hl c0 hden hk, ?_⟩
+  intro p hp sh t0 cs h ty desc diff dv groove w H
+  have hsrc : ∀ m ∈ (⟨[], [embOsu c0]⟩ : Convert.Src).maps, Convert.srcMapOk m = true := by
+    intro m hm
+    simp only [List.mem_singleton] at hm
+    subst hm
+    exact srcMapOk_embOsu c0
+  have hp1 : p.1 = embOsu c0 := by
+    have := (List.of_mem_zip hp).1
+    simpa using this
+  have := convert_write_sm_partial _ hc hns _ k out hsrc hconv p hp (by rw [hp1, ofSrcMap_embOsu]; exact hcols)
+    sh t0 cs h ty desc diff dv groove w H
+  rw [hp1, ofSrcMap_embOsu] at this
+  exact this
+
+/-- **Quaver → StepMania, end to end, exact regime** (`_partial` as `osu_to_sm_end_to_end_partial`; reader C06
+`qua_read_defaults`; the offset rule of `QuaToSM` is the first tempo point since D42). -/
+theorem qua_to_sm_end_to_end_partial (d0 : Qua.Doc) (hdecl : Qua.Spec.objsDeclared d0 = true) (c0 : Qua.Chart)
+    (hden : Qua.Spec.denote d0 = .ok c0) (hcols : ColsNonneg (ofQua c0)) (k : Int) (out : Convert.Out)
+    (hconv : Convert.convert Convert.tables quaToSM ⟨[], [embQua c0]⟩ k = .ok out) :
+    Qua.read d0 = .ok c0 ∧
+    ∀ p ∈ [embQua c0].zip out.pairs,
+      ∀ (sh : SM.Shows) (t0 : Rat) (cs : List BcSnap) (h : SM.WHeader) (ty desc diff : SM.Str) (dv : Int)
+        (groove : List Rat) (w : SM.Written), SMWritable sh t0 cs h (smOfT p.2.2 ty desc diff dv groove) w →
+        ∃ d, SM.denote (SM.renderWritten sh w) = some d ∧ d.offsetSec = some w.offsetSec ∧ d.bpms = some w.bpms ∧
+          -(1000 * w.offsetSec) = h.offset ∧ d.chartsWellFormed = true ∧ d.charts.length = 1 ∧
+          ∀ (hd : 0 < d.charts.length),
+            CloseTo 0 (.beat (1 / 96) (1 / 192)) true 0 (ofQua c0) (ofSMChart w.offsetSec w.bpms d.charts[0]) := by
+  obtain ⟨hc, _, hns⟩ := quaToSM_entry
+  refine ⟨by rw [Qua.qua_read_defaults d0 hdecl]; exact hden, ?_⟩
+  intro p hp sh t0 cs h ty desc diff dv groove w H
+  have hsrc : ∀ m ∈ (⟨[], [embQua c0]⟩ : Convert.Src).maps, Convert.srcMapOk m = true := by
+    intro m hm
+    simp only [List.mem_singleton] at hm
+    subst hm
+    exact srcMapOk_embQua c0
+  have hp1 : p.1 = embQua c0 := by
+    have := (List.of_mem_zip hp).1
+    simpa using this
+  have := convert_write_sm_partial _ hc hns _ k out hsrc hconv p hp (by rw [hp1, ofSrcMap_embQua]; exact hcols)
+    sh t0 cs h ty desc diff dv groove w H
+  rw [hp1, ofSrcMap_embQua] at this
+  exact this
+
+/-- **any source → StepMania** (`_partial`: exact regime, and the reader link "the in-memory set is the frames of the
+abstract charts `as`" is the hypothesis carried by `srcOfAbstract`; covers BMS → StepMania, and O2Jam → StepMania
+together with `o2j_first_tempo_at_zero` for the rule `0.0`) -/
+theorem from_abstract_to_sm_partial : ∀ c ∈ Generated.converters, c.shiftParam = none →
+    ∀ (as : List AChart) (svs : Option (List (Rat × Rat))) (setAttrs mapAttrs : List (String × String)) (lv : String)
+      (k : Int) (out : Convert.Out),
+    Convert.convert Convert.tables c (srcOfAbstract as svs setAttrs mapAttrs lv) k = .ok out →
+    ∀ p ∈ as.zip out.pairs, ColsNonneg p.1 →
+    ∀ (sh : SM.Shows) (t0 : Rat) (cs : List BcSnap) (h : SM.WHeader) (ty desc diff : SM.Str) (dv : Int)
+      (groove : List Rat) (w : SM.Written), SMWritable sh t0 cs h (smOfT p.2.2 ty desc diff dv groove) w →
+      ∃ d, SM.denote (SM.renderWritten sh w) = some d ∧ d.offsetSec = some w.offsetSec ∧ d.bpms = some w.bpms ∧
+        -(1000 * w.offsetSec) = h.offset ∧ d.chartsWellFormed = true ∧ d.charts.length = 1 ∧
+        ∀ (hd : 0 < d.charts.length),
+          CloseTo 0 (.beat (1 / 96) (1 / 192)) true 0 p.1 (ofSMChart w.offsetSec w.bpms d.charts[0]) := by
+  intro c hc hns as svs sa ma lv k out hconv p hp hcols sh t0 cs h ty desc diff dv groove w H
+  have hsrc : ∀ m ∈ (srcOfAbstract as svs sa ma lv).maps, Convert.srcMapOk m = true := by
+    intro m hm
+    simp only [srcOfAbstract, List.mem_map] at hm
+    obtain ⟨a, _, rfl⟩ := hm
+    exact srcMapOk_embA _ _ _ _
+  have hmem : (embA p.1 svs ma lv, p.2) ∈ (srcOfAbstract as svs sa ma lv).maps.zip out.pairs := by
+    simp only [srcOfAbstract, List.zip_map_left]
+    exact List.mem_map.mpr ⟨p, hp, rfl⟩
+  have := convert_write_sm_partial c hc hns _ k out hsrc hconv _ hmem (by simpa [ofSrcMap_embA] using hcols)
+    sh t0 cs h ty desc diff dv groove w H
+  simpa [ofSrcMap_embA] using this
+
+/-! ## StepMania → osu / Quaver: note data to written file (reader C02, converter C08, writer C01 / C06) -/
+
+def smToOsu : Convert.Conv := Convert.conv! "SMToOsu.convert"
+def smToQua : Convert.Conv := Convert.conv! "SMToQua.convert"
+
+theorem sm_entries : smToOsu ∈ Generated.converters ∧ smToOsu.name = "SMToOsu.convert" ∧ smToOsu.shiftParam = none ∧
+    smToQua ∈ Generated.converters ∧ smToQua.name = "SMToQua.convert" ∧ smToQua.shiftParam = none := by
+  decide +kernel
+
+/-- at millisecond resolution the statement does not look at the source chart except through its rows: a source with
+the same hits and holds (as multisets) and the same tempo rows is carried by the same target -/
+theorem closeTo_ms_of_perm (a a' tgt : AChart) (hh : a.hits.Perm a'.hits) (hl : a.holds.Perm a'.holds)
+    (hb : a.bpms = a'.bpms) (h : CloseTo 0 .ms false 0 a tgt) : CloseTo 0 .ms false 0 a' tgt := by
+  obtain ⟨h1, h2, h3⟩ := h
+  refine ⟨paired_of_perm_left _ _ _ _ hh h1, paired_of_perm_left _ _ _ _ hl h2, ?_⟩
+  rw [← hb]
+  exact h3
+
+/-- the domain of C02's chart-level reader theorems for one `#NOTES` value with the file's `#OFFSET` / `#BPMS`: C10's
+hypotheses on the tempo-change list `cs` from `t0`, every change on a measure line (`hline`: mid-measure changes are
+re-seated by the reader, C11 — the in-memory tempo values then differ from the file's by design), the header values
+`offsetSec`, `b` (pairs in beat order) denoting `t0` and `cs`; the reader's splitter and the specification's scanner see
+the same measures `ms` (C02 `measuresOf_eq_scanRows` proves it for writer-shaped data; open finding D32 is where they
+differ), rows a multiple of 4 per measure, rows no longer than `MAX_KEYS`, well-bracketed columns. -/
+structure SMChartDom (data : SM.Str) (t0 : Rat) (cs : List BcSnap) (offsetSec : Rat) (b : List (Rat × Rat))
+    (ms : List (List SM.Str)) : Prop where
+  hwf : wfChanges cs = true
+  hs : sortedSnaps cs = true
+  h0 : firstAtZero cs = true
+  hgc : gridCompatible (grid defaultMaxDiv) cs = true
+  hm : metronomeOk cs = true
+  hline : ∀ c ∈ cs, c.snap.beat = 0
+  ho : -(1000 * offsetSec) = t0
+  hb : SM.changesOf b = cs
+  hsorted : b.Pairwise (fun x y => decide (x.1 ≤ y.1) = true)
+  hms : SM.measuresOf data = ms
+  hsc : SM.scanRows data = ms
+  h4 : ∀ rows ∈ ms, 4 ∣ rows.length
+  hcol : ∀ e ∈ SM.eventsOf ms, e.col < SM.maxKeys
+  hok : (SM.pairAll (SM.events ms)).ok = true
+  hclosed : (SM.pairAll (SM.events ms)).opened = []
+
+/-- non-vacuity: the sample note data of `Lemmas/PipelineSMRead.lean` (four taps and a hold over two measures) at
+`#OFFSET:-0.5`, `#BPMS:0=120` -/
+example : SMChartDom sampleData 500 [⟨120, 4, ⟨0, 0, some 4⟩⟩] (-1 / 2) [(0, 120)] (SM.measuresOf sampleData) := by
+  refine ⟨by decide +kernel, by decide +kernel, by decide +kernel, by decide +kernel, by decide +kernel, by decide +kernel,
+    by decide +kernel, by decide +kernel, by decide +kernel, rfl, by decide +kernel, by decide +kernel, by decide +kernel,
+    by decide +kernel, by decide +kernel⟩
+
+/-- **StepMania → osu, end to end** (`_partial`; one `#NOTES` value with the file's `#OFFSET` / `#BPMS` to the written
+.osu text; reader C02 `sm_times` + `reader_notes_eq_spec` + `tempo_list_keeps_times_partial` assembled in
+`sm_read_abstract`, converter C08, writer C01): inside `SMChartDom`, whenever `SMMap._read_notes` (any permutation
+`np.argsort` may return) gives the tempo list `rb` and the notes `notes`, then
+1. reader = denotation: the in-memory chart's hits and holds are — as multisets — those of the by-the-book denotation of
+   the `#NOTES` value (`denoteChart ps`, times by integrating the `#BPMS` segments from `−1000·#OFFSET`), and its tempo
+   list is the denotation's `(time, bpm)` list;
+2. whenever the converter model's `SMToOsu.convert` succeeds on the set holding that chart's rows, every converted chart
+   `t` whose osu chart is `OsuWritable` is written to a text with a by-the-book denotation `c'` and
+   `CloseTo 0 ms false 0 (ofSMChart #OFFSET #BPMS (denoteChart ps)) (ofOsu c')`: hits and holds of the SOURCE's denotation
+   within 1 ms of the WRITTEN FILE's, tempo timelines equal.
+`_partial` because (1) the file-level lexing (the `;` / `:` tokeniser of `SMMapSet.read` — C02 `read_charts_each`,
+`chart_own_header` — against the MSD scanner of `SM.denote`) is not composed: the statement starts at the `#NOTES` value and
+the parsed header values; (2) tempo changes on measure lines only.  Glue by definition: `srcOfAbstract` / `embA` (the
+in-memory `SMMap` as the list frames of its hit, hold and tempo rows — mines, rolls, lifts, fakes, key sounds are not
+read by any converter: C08), `osuOfT`. -/
+theorem sm_to_osu_end_to_end_partial (σf : List Snap → List Nat) (hσ : ∀ qs, SortsAsc (σf qs) qs)
+    (data : SM.Str) (t0 : Rat) (cs : List BcSnap) (offsetSec : Rat) (b : List (Rat × Rat)) (ms : List (List SM.Str))
+    (D : SMChartDom data t0 cs offsetSec b ms) (ss : Bool) (rb : List (Rat × Rat)) (notes : List SM.Note)
+    (h : SM.readNotesWith σf data (some t0) (some cs) ss = .ok (rb, notes))
+    (ps : List SM.Str) (hps : ps.getD 5 [] = data)
+    (svs : Option (List (Rat × Rat))) (setAttrs mapAttrs : List (String × String)) (lv : String) (k : Int)
+    (out : Convert.Out)
+    (hconv : Convert.convert Convert.tables smToOsu (srcOfAbstract [ofSMRead rb notes] svs setAttrs mapAttrs lv) k = .ok out) :
+    ((ofSMRead rb notes).hits.Perm (ofSMChart offsetSec b (SM.denoteChart ps)).hits ∧
+     (ofSMRead rb notes).holds.Perm (ofSMChart offsetSec b (SM.denoteChart ps)).holds ∧
+     (ofSMRead rb notes).bpms = (ofSMChart offsetSec b (SM.denoteChart ps)).bpms) ∧
+    ∀ p ∈ [ofSMRead rb notes].zip out.pairs, ∀ (R : Osu.Render) (md : Osu.Meta) (osvs : List Osu.Sv),
+      OsuWritable R (osuOfT p.2.2 md osvs) →
+      ∃ c', Osu.denoteText (Osu.writeText R (osuOfT p.2.2 md osvs)) = .ok c' ∧
+        CloseTo 0 .ms false 0 (ofSMChart offsetSec b (SM.denoteChart ps)) (ofOsu c') := by
+  have hr := sm_read_abstract σf hσ data t0 cs ss D.hwf D.hs D.h0 D.hgc D.hm D.hline offsetSec b D.ho D.hb D.hsorted ms
+    D.hms D.hsc D.h4 D.hcol D.hok D.hclosed rb notes h ps hps
+  refine ⟨hr, ?_⟩
+  intro p hp R md osvs hw
+  obtain ⟨hc, _, hns, _, _, _⟩ := sm_entries
+  obtain ⟨c', hc', hclose⟩ := from_abstract_to_osu_partial _ hc hns _ svs setAttrs mapAttrs lv k out hconv p hp R md osvs hw
+  have hp1 : p.1 = ofSMRead rb notes := by
+    have := (List.of_mem_zip hp).1
+    simpa using this
+  rw [hp1] at hclose
+  exact ⟨c', hc', closeTo_ms_of_perm _ _ _ hr.1 hr.2.1 hr.2.2 hclose⟩
+
+/-- **StepMania → Quaver, end to end** (`_partial` as `sm_to_osu_end_to_end_partial`; writer C06; additionally the tempo
+points of the source lie on whole milliseconds, the metadata record is `MetaOk`, the writer model accepts) -/
+theorem sm_to_qua_end_to_end_partial (σf : List Snap → List Nat) (hσ : ∀ qs, SortsAsc (σf qs) qs)
+    (data : SM.Str) (t0 : Rat) (cs : List BcSnap) (offsetSec : Rat) (b : List (Rat × Rat)) (ms : List (List SM.Str))
+    (D : SMChartDom data t0 cs offsetSec b ms) (ss : Bool) (rb : List (Rat × Rat)) (notes : List SM.Note)
+    (h : SM.readNotesWith σf data (some t0) (some cs) ss = .ok (rb, notes))
+    (ps : List SM.Str) (hps : ps.getD 5 [] = data)
+    (svs : Option (List (Rat × Rat))) (setAttrs mapAttrs : List (String × String)) (lv : String) (k : Int)
+    (out : Convert.Out)
+    (hconv : Convert.convert Convert.tables smToQua (srcOfAbstract [ofSMRead rb notes] svs setAttrs mapAttrs lv) k = .ok out) :
+    ((ofSMRead rb notes).hits.Perm (ofSMChart offsetSec b (SM.denoteChart ps)).hits ∧
+     (ofSMRead rb notes).holds.Perm (ofSMChart offsetSec b (SM.denoteChart ps)).holds ∧
+     (ofSMRead rb notes).bpms = (ofSMChart offsetSec b (SM.denoteChart ps)).bpms) ∧
+    ∀ p ∈ [ofSMRead rb notes].zip out.pairs, ∀ (info : Qua.Rec) (qsvs : List Qua.Sv) (d : Qua.Doc),
+      Qua.MetaOk info → TempoWholeMs (ofSMChart offsetSec b (SM.denoteChart ps)) →
+      Qua.write (quaOfT p.2.2 info qsvs) = .ok d →
+      ∃ c', Qua.Spec.denote d = .ok c' ∧
+        CloseTo 0 .ms false 0 (ofSMChart offsetSec b (SM.denoteChart ps)) (ofQua c') := by
+  have hr := sm_read_abstract σf hσ data t0 cs ss D.hwf D.hs D.h0 D.hgc D.hm D.hline offsetSec b D.ho D.hb D.hsorted ms
+    D.hms D.hsc D.h4 D.hcol D.hok D.hclosed rb notes h ps hps
+  refine ⟨hr, ?_⟩
+  intro p hp info qsvs d hm hms hw
+  obtain ⟨_, _, _, hc, _, hns⟩ := sm_entries
+  have hp1 : p.1 = ofSMRead rb notes := by
+    have := (List.of_mem_zip hp).1
+    simpa using this
+  have hms' : TempoWholeMs p.1 := by
+    rw [hp1]
+    intro x hx
+    exact hms x (hr.2.2 ▸ hx)
+  obtain ⟨c', hc', hclose⟩ := from_abstract_to_qua_partial _ hc hns _ svs setAttrs mapAttrs lv k out hconv p hp info qsvs d
+    hm hms' hw
+  rw [hp1] at hclose
+  exact ⟨c', hc', closeTo_ms_of_perm _ _ _ hr.1 hr.2.1 hr.2.2 hclose⟩
+
+/-- non-vacuity of the converter hypothesis: on the frames of the sample chart both converter models succeed and return
+one chart holding the chart's rows -/
+example :
+    let a : AChart := ⟨[(500, 0), (1000, 1), (1500, 2), (2000, 3)], [(2500, 0, 1000)], [(500, 120)]⟩
+    let sa : List (String × String) := [("background", "b"), ("title", "t"), ("title_translit", "t"), ("artist", "a"),
+      ("artist_translit", "a"), ("music", "m"), ("credit", "c"), ("sample_start", "0")]
+    let ma : List (String × String) := [("difficulty", "Hard"), ("chart_type", "dance-single"), ("difficulty_val", "1")]
+    (match Convert.convert Convert.tables smToOsu (srcOfAbstract [a] none sa ma "<d>") 0 with
+     | .ok out => out.charts.map ofTChart == [a]
+     | .error _ => false) = true ∧
+    (match Convert.convert Convert.tables smToQua (srcOfAbstract [a] none sa ma "<d>") 0 with
+     | .ok out => out.charts.map ofTChart == [a]
+     | .error _ => false) = true := by decide +kernel
+
+/-! ## BMS → osu / Quaver: file lines to written file, objects (reader C04 `read_eq_denote`, converter C08, writer C01 / C06) -/
+
+def bmsToOsu : Convert.Conv := Convert.conv! "BMSToOsu.convert"
+def bmsToQua : Convert.Conv := Convert.conv! "BMSToQua.convert"
+
+theorem bms_entries : bmsToOsu ∈ Generated.converters ∧ bmsToOsu.name = "BMSToOsu.convert" ∧ bmsToOsu.shiftParam = none ∧
+    bmsToQua ∈ Generated.converters ∧ bmsToQua.name = "BMSToQua.convert" ∧ bmsToQua.shiftParam = none := by
+  decide +kernel
+
+/-- **BMS reader = denotation on the abstract chart** (objects; from C04 `read_eq_denote`): whatever chart `read`
+returns holds, as multisets, exactly the hits and holds of the by-the-book denotation. -/
+theorem bms_read_abstract (lay : BMS.Layout) (hlay : BMS.LayoutOK lay) (lines : List BMS.Bytes) (d : BMS.Denotation)
+    (hden : BMS.denote lay lines = some d)
+    (hord : ∀ doc, BMS.parseDoc lines = .ok doc → BMS.LanesInOrder lay doc.notes)
+    (hgc : gridCompatible (grid defaultMaxDiv) d.tempo = true) (c : BMS.Chart)
+    (hr : BMS.read defaultGrid lay lines = .ok c) :
+    (ofBMSRead c).hits.Perm (ofBMS d).hits ∧ (ofBMSRead c).holds.Perm (ofBMS d).holds := by
+  obtain ⟨hits, holds, _, hh, hl, hall⟩ := BMS.read_eq_denote lay hlay lines d hden hord hgc
+  obtain ⟨e1, e2, _⟩ := hall c hr
+  constructor
+  · have := hh.map (fun h : BMS.DHit => (h.offset, (h.col : Int)))
+    rw [List.map_map] at this
+    simp only [ofBMSRead, ofBMS, e1]
+    exact this
+  · have := hl.map (fun h : BMS.DHold => (h.offset, (h.col : Int), h.length))
+    rw [List.map_map] at this
+    simp only [ofBMSRead, ofBMS, e2]
+    exact this
+
+theorem objectsClose_ms_of_perm (a a' tgt : AChart) (hh : a.hits.Perm a'.hits) (hl : a.holds.Perm a'.holds)
+    (h : CloseTo 0 .ms false 0 a tgt) : ObjectsClose 0 .ms false 0 a' tgt :=
+  ⟨paired_of_perm_left _ _ _ _ hh h.1, paired_of_perm_left _ _ _ _ hl h.2.1⟩
+
+/-- **BMS → osu, end to end, objects** (`_partial`; lines of the .bms to the written .osu text): for every injective
+layout (`LayoutOK`; the five generated layouts: C04 `layouts_ok`) and every text with a by-the-book meaning `d` whose lanes
+are in position order (¬D05) and whose tempo list is grid-compatible (¬D22), whenever the reader returns a chart `c`:
+1. `c` holds exactly `d`'s hits and holds (C04 `read_eq_denote`);
+2. whenever the converter model's `BMSToOsu.convert` succeeds on the set holding `c`'s rows, for every converted chart
+   whose osu chart is `OsuWritable` the written text has a by-the-book denotation `c'` with the hits and holds of the
+   SOURCE's denotation `d` within 1 ms (`ObjectsClose … (ofBMS d) (ofOsu c')`), and the whole in-memory chart — its
+   stored tempo list included — carried (`CloseTo … (ofBMSRead c) (ofOsu c')`, tempo timelines equal).
+`_partial` because the tempo timeline is compared with the reader's stored list, not with `d.tempo`: `read` re-seats the
+tempo changes (`tm.reseat()`, C11 `reseat_spec`: times and tempos kept, at most one inserted point per interval, which
+repeats the tempo in force), and that the *normalised* timelines of `c.bpms` and `d.tempo` coincide is not composed here.
+Glue by definition: `embBMS` (the in-memory `BMSMap` as its list frames: key columns + the `sample` column the
+converter reads, codec `dec` a parameter), `osuOfT`. -/
+theorem bms_to_osu_objects_partial (lay : BMS.Layout) (hlay : BMS.LayoutOK lay) (lines : List BMS.Bytes)
+    (d : BMS.Denotation) (hden : BMS.denote lay lines = some d)
+    (hord : ∀ doc, BMS.parseDoc lines = .ok doc → BMS.LanesInOrder lay doc.notes)
+    (hgc : gridCompatible (grid defaultMaxDiv) d.tempo = true) (c : BMS.Chart)
+    (hr : BMS.read defaultGrid lay lines = .ok c)
+    (dec : BMS.Bytes → String) (setAttrs mapAttrs : List (String × String)) (lv : String) (k : Int)
+    (out : Convert.Out)
+    (hconv : Convert.convert Convert.tables bmsToOsu ⟨setAttrs, [embBMS dec c mapAttrs lv]⟩ k = .ok out) :
+    ((ofBMSRead c).hits.Perm (ofBMS d).hits ∧ (ofBMSRead c).holds.Perm (ofBMS d).holds) ∧
+    ∀ p ∈ [embBMS dec c mapAttrs lv].zip out.pairs, ∀ (R : Osu.Render) (md : Osu.Meta) (osvs : List Osu.Sv),
+      OsuWritable R (osuOfT p.2.2 md osvs) →
+      ∃ c', Osu.denoteText (Osu.writeText R (osuOfT p.2.2 md osvs)) = .ok c' ∧
+        ObjectsClose 0 .ms false 0 (ofBMS d) (ofOsu c') ∧ CloseTo 0 .ms false 0 (ofBMSRead c) (ofOsu c') := by
+  have hra := bms_read_abstract lay hlay lines d hden hord hgc c hr
+  refine ⟨hra, ?_⟩
+  intro p hp R md osvs hw
+  obtain ⟨hc, _, hns, _, _, _⟩ := bms_entries
+  have hsrc : ∀ m ∈ (⟨setAttrs, [embBMS dec c mapAttrs lv]⟩ : Convert.Src).maps, Convert.srcMapOk m = true := by
+    intro m hm
+    simp only [List.mem_singleton] at hm
+    subst hm
+    exact srcMapOk_embBMS dec c mapAttrs lv
+  obtain ⟨c', hc', hclose⟩ := convert_write_osu _ hc hns _ k out hsrc hconv p hp R md osvs hw
+  have hp1 : p.1 = embBMS dec c mapAttrs lv := by
+    have := (List.of_mem_zip hp).1
+    simpa using this
+  rw [hp1, ofSrcMap_embBMS] at hclose
+  exact ⟨c', hc', objectsClose_ms_of_perm _ _ _ hra.1 hra.2 hclose, hclose⟩
+
+/-- **BMS → Quaver, end to end, objects** (`_partial` as `bms_to_osu_objects_partial`; writer C06: the stored tempo points
+on whole milliseconds, `MetaOk`, the writer model accepts) -/
+theorem bms_to_qua_objects_partial (lay : BMS.Layout) (hlay : BMS.LayoutOK lay) (lines : List BMS.Bytes)
+    (d : BMS.Denotation) (hden : BMS.denote lay lines = some d)
+    (hord : ∀ doc, BMS.parseDoc lines = .ok doc → BMS.LanesInOrder lay doc.notes)
+    (hgc : gridCompatible (grid defaultMaxDiv) d.tempo = true) (c : BMS.Chart)
+    (hr : BMS.read defaultGrid lay lines = .ok c)
+    (dec : BMS.Bytes → String) (setAttrs mapAttrs : List (String × String)) (lv : String) (k : Int)
+    (out : Convert.Out)
+    (hconv : Convert.convert Convert.tables bmsToQua ⟨setAttrs, [embBMS dec c mapAttrs lv]⟩ k = .ok out) :
+    ((ofBMSRead c).hits.Perm (ofBMS d).hits ∧ (ofBMSRead c).holds.Perm (ofBMS d).holds) ∧
+    ∀ p ∈ [embBMS dec c mapAttrs lv].zip out.pairs, ∀ (info : Qua.Rec) (qsvs : List Qua.Sv) (dq : Qua.Doc),
+      Qua.MetaOk info → TempoWholeMs (ofBMSRead c) → Qua.write (quaOfT p.2.2 info qsvs) = .ok dq →
+      ∃ c', Qua.Spec.denote dq = .ok c' ∧
+        ObjectsClose 0 .ms false 0 (ofBMS d) (ofQua c') ∧ CloseTo 0 .ms false 0 (ofBMSRead c) (ofQua c') := by
+  have hra := bms_read_abstract lay hlay lines d hden hord hgc c hr
+  refine ⟨hra, ?_⟩
+  intro p hp info qsvs dq hm hms hw
+  obtain ⟨_, _, _, hc, _, hns⟩ := bms_entries
+  have hsrc : ∀ m ∈ (⟨setAttrs, [embBMS dec c mapAttrs lv]⟩ : Convert.Src).maps, Convert.srcMapOk m = true := by
+    intro m hm
+    simp only [List.mem_singleton] at hm
+    subst hm
+    exact srcMapOk_embBMS dec c mapAttrs lv
+  have hp1 : p.1 = embBMS dec c mapAttrs lv := by
+    have := (List.of_mem_zip hp).1
+    simpa using this
+  obtain ⟨c', hc', hclose⟩ := convert_write_qua _ hc hns _ k out hsrc hconv p hp info qsvs dq
+    hm (by rw [hp1, ofSrcMap_embBMS]; exact hms) hw
+  rw [hp1, ofSrcMap_embBMS] at hclose
+  exact ⟨c', hc', objectsClose_ms_of_perm _ _ _ hra.1 hra.2 hclose, hclose⟩
+
+/-- non-vacuity of the converter hypotheses: on the frames of a read chart (two hits with samples, a hold, two stored
+tempo points) both converter models succeed and return one chart holding the chart's rows -/
+example :
+    let c : BMS.Chart := ⟨⟨[], [], [], [], [], [], 120, []⟩, [⟨0, ['0', '1'], 0⟩, ⟨3, [], 500⟩], [⟨1, ['0', '2'], 1000, 500⟩],
+      [⟨120, 4, 0⟩, ⟨150, 4, 2000⟩], []⟩
+    let ma : List (String × String) := [("title", "t"), ("artist", "a"), ("version", "v")]
+    (match Convert.convert Convert.tables bmsToOsu ⟨[], [embBMS (fun _ => "s.wav") c ma "<d>"]⟩ 0 with
+     | .ok out => out.charts.map ofTChart == [ofBMSRead c]
+     | .error _ => false) = true ∧
+    (match Convert.convert Convert.tables bmsToQua ⟨[], [embBMS (fun _ => "s.wav") c ma "<d>"]⟩ 0 with
+     | .ok out => out.charts.map ofTChart == [ofBMSRead c]
+     | .error _ => false) = true := by decide +kernel
+
+/-! ## the written `#BPMS` of a measure-line tempo list -/
+
+theorem zip_map_self' {α β} (l : List α) (f : α → β) : (l.map f).zip l = l.map (fun a => (f a, a)) := by
+  induction l with
+  | nil => rfl
+  | cons a t ih => simp [ih]
+
+/-- **the `#BPMS` pairs `SMMapSet.write` emits for a measure-line tempo list**: when the first chart's tempo list is the
+stored form of `cs` from `t0` (C10's domain, 4-beat metronome), every change of `cs` sits on a measure line and the stored
+times are on the snap grid, the written pairs are `round6 (4·measure) = bpm` in the order of `cs` — so they denote `cs`
+(C03 `changesOf_written_measure_lines`) and are in beat order. -/
+theorem written_bpms_measure_lines (t0 : Rat) (cs : List BcSnap)
+    (hwf : wfChanges cs = true) (hs : sortedSnaps cs = true) (h0 : firstAtZero cs = true)
+    (hgc : gridCompatible (grid defaultMaxDiv) cs = true) (hm : metronomeOk cs = true)
+    (hl : ∀ c ∈ cs, c.snap.beat = 0 ∧ c.met = 4 ∧ c.snap.met = some 4)
+    (h : SM.WHeader) (c0 : SM.WChart) (rest : List SM.WChart) (w : SM.Written)
+    (hb : SM.toTimingMap c0.bpms = tmOf t0 cs)
+    (htb : ∀ t ∈ c0.bpms.map (·.1), OnGridAt (grid defaultMaxDiv) t0 cs t)
+    (hw : SM.write h (c0 :: rest) = .ok w) :
+    w.bpms = cs.map (fun c => (SM.round6 (4 * (c.snap.measure : Rat)), c.bpm)) ∧
+    SM.changesOf w.bpms = cs ∧ w.bpms.Pairwise (fun x y => decide (x.1 ≤ y.1) = true) := by
+  have hM : ∀ c ∈ cs, c.met = 4 := fun c hc => (hl c hc).2.1
+  have hg : defaultGrid.toList = grid defaultMaxDiv := by simp [defaultGrid]
+  have hbeats : beats defaultGrid (SM.toTimingMap c0.bpms) (c0.bpms.map (·.1)) =
+      .ok ((c0.bpms.map (·.1)).map (beatAt t0 cs)) := by
+    rw [hb]
+    exact beats_run_exact defaultGrid (gridOK_grid (by decide)) t0 cs hwf hs h0 (by rw [hg]; exact hgc) hm 4 hM _
+      (by rw [hg]; exact htb)
+  have e : w.bpms = c0.bpms.map (fun p => (SM.round6 (beatAt t0 cs p.1), p.2)) := by
+    unfold SM.write at hw
+    simp only [hbeats, bind, Except.bind] at hw
+    split at hw
+    · cases hw
+    · cases hw
+      simp only [List.map_map, zip_map_self']
+      rfl
+  have h1 : c0.bpms.map (·.1) = changeTimes t0 cs := by
+    rw [← stored_times_eq_changeTimes t0 cs hwf hs, ← hb]; simp [SM.toTimingMap]
+  have h2 : c0.bpms.map (·.2) = cs.map (·.bpm) := by
+    rw [← tmOf_bpms' t0 cs, ← hb]; simp [SM.toTimingMap]
+  have hc0 : c0.bpms = cs.map (fun c => (timeAt t0 cs c.snap, c.bpm)) := by
+    rw [← zip_map_fst_snd c0.bpms, h1, h2]
+    unfold changeTimes
+    rw [List.zip_map']
+  have hnn : ∀ c ∈ cs, 0 ≤ c.snap.measure := by
+    cases cs with
+    | nil => intro c hc; cases hc
+    | cons f rest' =>
+      simp only [firstAtZero, Bool.and_eq_true, decide_eq_true_eq] at h0
+      intro c hc
+      rcases List.mem_cons.mp hc with rfl | hc'
+      · exact le_of_eq h0.1.symm
+      · have hle := sortedSnaps_head_le hs c hc'
+        have hcb := (hl c hc).1
+        simp only [Snap.le, Snap.lt, Snap.eqv, h0.1, h0.2, hcb, Bool.or_eq_true, Bool.and_eq_true,
+          decide_eq_true_eq] at hle
+        rcases hle with (h' | h') | h'
+        · exact le_of_lt h'
+        · exact le_of_eq h'.1
+        · exact le_of_eq h'.1
+  have hw' : w.bpms = cs.map (fun c => (SM.round6 (4 * (c.snap.measure : Rat)), c.bpm)) := by
+    rw [e, hc0, List.map_map]
+    apply List.map_congr_left
+    intro c hc
+    have hcb := (hl c hc).1
+    have hq : queryOk cs c.snap = true := C02.queryOk_of_nonneg cs h0 c.snap (hnn c hc) (by rw [hcb])
+    have := beatAt_timeAt_absBeat t0 cs c.snap hwf hs h0 hM hq (by rw [hcb]; decide)
+    simp only [Function.comp, this, SM.absBeat, hcb, Rat.add_zero]
+  refine ⟨hw', ?_, ?_⟩
+  · rw [hw']; exact C03.changesOf_written_measure_lines cs hs hl
+  · rw [hw']
+    have hr : ∀ m : Int, SM.round6 (4 * (m : Rat)) = 4 * (m : Rat) := by
+      intro m
+      have := C03.round6_exact (4000000 * m)
+      have e' : ((4000000 * m : Int) : Rat) / 1000000 = 4 * (m : Rat) := by push_cast; ring
+      rw [e'] at this; exact this
+    rw [List.pairwise_map]
+    refine (sortedSnaps_pairwise hs).imp_of_mem ?_
+    intro a b ha hb' hab
+    simp only [hr, decide_eq_true_eq]
+    have hba := (hl b hb').1
+    have haa := (hl a ha).1
+    simp only [Snap.le, Snap.lt, Snap.eqv, haa, hba, Bool.or_eq_true, Bool.and_eq_true, decide_eq_true_eq] at hab
+    have : a.snap.measure ≤ b.snap.measure := by
+      rcases hab with (h' | h') | h'
+      · exact le_of_lt h'
+      · exact le_of_eq h'.1
+      · exact le_of_eq h'.1
+    have : (a.snap.measure : Rat) ≤ (b.snap.measure : Rat) := by exact_mod_cast this
+    linarith
+
+/-- **for measure-line tempo lists the two ties of `SMWritable` to the written header are theorems**: the exact regime
+demands tempo points on measure lines anyway (`gridExact`'s `onMeasureLines`); then `changesOf w.bpms = cs` and the beat
+order of `w.bpms` follow from the chart side (`written_bpms_measure_lines`), given that the stored tempo times are on the
+snap grid (`htb`).  All hypotheses left are about the renderer, the tempo list `cs`, the header `h` and the chart `c`. -/
+theorem smWritable_of_measure_lines (sh : SM.Shows) (t0 : Rat) (cs : List BcSnap) (h : SM.WHeader) (c : SM.WChart)
+    (w : SM.Written) (hsh : SM.ShowsOK sh) (hsp : SM.ShowsParse sh)
+    (hwf : wfChanges cs = true) (hs : sortedSnaps cs = true) (h0 : firstAtZero cs = true)
+    (hgc : gridCompatible (grid defaultMaxDiv) cs = true) (hm : metronomeOk cs = true)
+    (hl : ∀ c ∈ cs, c.snap.beat = 0 ∧ c.met = 4 ∧ c.snap.met = some 4)
+    (hw : SM.write h [c] = .ok w) (hL : ∃ out, C03.ChartWritten t0 cs c out)
+    (hstr : ∀ ta ∈ SM.stringTags, SM.CleanParam ((h.strs.lookup ta.2).getD []))
+    (hch : SM.CleanParam c.chartType ∧ SM.CleanParam c.description ∧ SM.CleanParam c.difficulty ∧
+      '\n' ∉ c.chartType ∧ '\n' ∉ c.difficulty)
+    (ho : h.offset = t0) (htb : ∀ t ∈ c.bpms.map (·.1), OnGridAt (grid defaultMaxDiv) t0 cs t) :
+    SMWritable sh t0 cs h c w := by
+  obtain ⟨out, keys, a1, a2, a3, hb, a5⟩ := hL
+  obtain ⟨_, hbp, hsorted⟩ := written_bpms_measure_lines t0 cs hwf hs h0 hgc hm hl h c [] w hb htb hw
+  exact ⟨hsh, hsp, hwf, hs, h0, hgc, hm, fun c hc => (hl c hc).2.1, hw, ⟨out, keys, a1, a2, a3, hb, a5⟩, hstr, hch, ho,
+    hbp, hsorted⟩
+
+/-- non-vacuity of `hl` / `htb` on the tempo list of the examples above -/
+example :
+    let cs : List BcSnap := [⟨120, 4, ⟨0, 0, some 4⟩⟩, ⟨60, 4, ⟨2, 0, some 4⟩⟩]
+    (∀ c ∈ cs, c.snap.beat = 0 ∧ c.met = 4 ∧ c.snap.met = some 4) ∧
+    (∀ t ∈ [(500 : Rat), 4500], OnGridAt (grid defaultMaxDiv) 500 cs t) := by
+  have hz : (0 : Rat) ∈ grid defaultMaxDiv := by
+    have := (gridOK_grid (by decide) : GridOK defaultGrid).zero_mem
+    simpa [defaultGrid] using this
+  have e1 : (500 + snapDist (⟨0, 0, some 4⟩ : Snap) ⟨2, 0, some 4⟩ 4 * beatLen 120 : Rat) = 4500 := by decide +kernel
+  have f1 : frac (((500 : Rat) - 500) / beatLen 120) = 0 := by decide +kernel
+  have f2 : frac (((4500 : Rat) - 4500) / beatLen 60) = 0 := by decide +kernel
+  refine ⟨by decide +kernel, ?_⟩
+  intro t ht
+  simp only [List.mem_cons, List.not_mem_nil, or_false] at ht
+  rcases ht with rfl | rfl
+  · refine ⟨by decide +kernel, ?_⟩
+    simp only [onGridAux, e1]
+    rw [if_neg (by decide +kernel), f1]
+    exact hz
+  · refine ⟨by decide +kernel, ?_⟩
+    simp only [onGridAux, e1]
+    rw [if_pos (by decide +kernel), f2]
+    exact hz
+
+/-! ## … → BMS: convert, then write, objects in the exact regime (C08 + C05 chained over `AChart`) -/
+
+theorem flatMap_filter_perm {α} (key : α → Nat) (ks : List Nat) (hnd : ks.Nodup) (l : List α)
+    (hmem : ∀ a ∈ l, key a ∈ ks) : (ks.flatMap (fun k => l.filter (fun a => decide (key a = k)))).Perm l := by
+  induction ks generalizing l with
+  | nil =>
+    cases l with
+    | nil => simp
+    | cons a t => exact absurd (hmem a (by simp)) (by simp)
+  | cons k ks' ih =>
+    have hk : k ∉ ks' := (List.nodup_cons.mp hnd).1
+    have hnd' : ks'.Nodup := (List.nodup_cons.mp hnd).2
+    rw [List.flatMap_cons]
+    have htail : ks'.flatMap (fun k' => l.filter (fun a => decide (key a = k'))) =
+        ks'.flatMap (fun k' => (l.filter (fun a => !decide (key a = k))).filter (fun a => decide (key a = k'))) := by
+      apply List.flatMap_congr
+      intro k' hk'
+      rw [List.filter_filter]
+      apply List.filter_congr
+      intro a _
+      by_cases h : key a = k'
+      · have : k' ≠ k := by rintro rfl; exact hk hk'
+        simp [h, this]
+      · simp [h]
+    rw [htail]
+    have ih' := ih hnd' (l.filter (fun a => !decide (key a = k))) (by
+      intro a ha
+      obtain ⟨hal, hne⟩ := List.mem_filter.mp ha
+      have := hmem a hal
+      simp only [Bool.not_eq_true', decide_eq_false_iff_not] at hne
+      rcases List.mem_cons.mp this with h | h
+      · exact absurd h hne
+      · exact h)
+    exact (List.Perm.append_left _ ih').trans (List.filter_append_perm _ l)
+
+open Reamber.BMS Reamber.PermInv in
+theorem col_mem_of_channelOf (lay : BMS.Layout) (col : Nat) (h : (BMS.channelOf lay col).isSome = true) :
+    col ∈ lay.lanes.map (·.2) := by
+  unfold BMS.channelOf at h
+  rw [Option.isSome_map, List.find?_isSome] at h
+  obtain ⟨p, hp, hpc⟩ := h
+  simp only [decide_eq_true_eq] at hpc
+  exact List.mem_map.mpr ⟨p, List.mem_reverse.mp hp, hpc⟩
+
+open Reamber.BMS Reamber.PermInv in
+theorem atoms_hits_of_hits {α} (F : Rat → Snap) (ln : BMS.Bytes) (so : BMS.Bytes → BMS.Bytes) (col : Nat) (l : List α)
+    (f : α → Rat) (g : α → BMS.Bytes) :
+    ((l.map (fun h => TAtom.hit (f h) (g h))).map (TAtom.toAtom F ln)).flatMap (Atom.hits so col) =
+      l.map (fun h => (⟨col, so (g h), posOf (F (f h))⟩ : SHit)) := by
+  induction l with
+  | nil => rfl
+  | cons a t ih => simp only [List.map_cons, List.flatMap_cons, TAtom.toAtom, Atom.hits, ih, List.cons_append, List.nil_append]
+
+open Reamber.BMS Reamber.PermInv in
+theorem atoms_hits_of_holds {α} (F : Rat → Snap) (ln : BMS.Bytes) (so : BMS.Bytes → BMS.Bytes) (col : Nat) (l : List α)
+    (f f' : α → Rat) (g : α → BMS.Bytes) :
+    ((l.map (fun h => TAtom.hold (f h) (f' h) (g h))).map (TAtom.toAtom F ln)).flatMap (Atom.hits so col) = [] := by
+  induction l with
+  | nil => rfl
+  | cons a t ih => simp only [List.map_cons, List.flatMap_cons, TAtom.toAtom, Atom.hits, ih, List.cons_append, List.nil_append]
+
+open Reamber.BMS Reamber.PermInv in
+theorem atoms_holds_of_hits {α} (F : Rat → Snap) (ln : BMS.Bytes) (so : BMS.Bytes → BMS.Bytes) (col : Nat) (l : List α)
+    (f : α → Rat) (g : α → BMS.Bytes) :
+    ((l.map (fun h => TAtom.hit (f h) (g h))).map (TAtom.toAtom F ln)).flatMap (Atom.holds so col) = [] := by
+  induction l with
+  | nil => rfl
+  | cons a t ih => simp only [List.map_cons, List.flatMap_cons, TAtom.toAtom, Atom.holds, ih, List.cons_append, List.nil_append]
+
+open Reamber.BMS Reamber.PermInv in
+theorem atoms_holds_of_holds {α} (F : Rat → Snap) (ln : BMS.Bytes) (so : BMS.Bytes → BMS.Bytes) (col : Nat) (l : List α)
+    (f f' : α → Rat) (g : α → BMS.Bytes) :
+    ((l.map (fun h => TAtom.hold (f h) (f' h) (g h))).map (TAtom.toAtom F ln)).flatMap (Atom.holds so col) =
+      l.map (fun h => (⟨col, so (g h), posOf (F (f h)), posOf (F (f' h))⟩ : SHold)) := by
+  induction l with
+  | nil => rfl
+  | cons a t ih => simp only [List.map_cons, List.flatMap_cons, TAtom.toAtom, Atom.holds, ih, List.cons_append, List.nil_append]
+
+open Reamber.BMS Reamber.PermInv in
+/-- **the written BMS file's denotation holds the chart's objects (exact regime)** — the lane-by-lane conclusion of C05
+`bms_write_read` read on the abstract chart: when every written position is read back at its own time (`hexact`: what
+`bms_write_read` gives for times on the snap grid), the denotation's hits and holds are, as multisets, exactly the
+chart's `(time, column)` / `(time, column, tail − time)` rows. -/
+theorem bms_denoted_objects_exact (cs : List BcSnap) (lay : BMS.Layout) (hnd : (lay.lanes.map (·.2)).Nodup)
+    (dflt : BMS.Bytes) (c : BMS.WChart)
+    (hcolH : ∀ h ∈ c.hits, h.col ∈ lay.lanes.map (·.2)) (hcolL : ∀ h ∈ c.holds, h.col ∈ lay.lanes.map (·.2))
+    (items : BMS.Bytes × Nat → List TAtom)
+    (hitems : ∀ lane ∈ lay.lanes, (items lane).Perm (laneItems c dflt lane.2))
+    (d : BMS.Denotation) (so : BMS.Bytes → BMS.Bytes)
+    (hsh : d.shits = lay.lanes.flatMap (fun lane => ((items lane).map (TAtom.toAtom (posFn cs) c.lnEnd)).flatMap
+      (Atom.hits so lane.2)))
+    (hsl : d.sholds = lay.lanes.flatMap (fun lane => ((items lane).map (TAtom.toAtom (posFn cs) c.lnEnd)).flatMap
+      (Atom.holds so lane.2)))
+    (hh : d.hits = d.shits.map (fun h => ⟨h.col, h.sample, timeAt 0 d.tempo h.snap⟩))
+    (hl : d.holds = d.sholds.map (fun h => ⟨h.col, h.sample, timeAt 0 d.tempo h.head,
+      timeAt 0 d.tempo h.tail - timeAt 0 d.tempo h.head⟩))
+    (hexact : ∀ lane ∈ lay.lanes, ∀ a ∈ items lane, ∀ t ∈ a.times, timeAt 0 d.tempo (posOf (posFn cs t)) = t) :
+    (ofBMS d).hits.Perm (c.hits.map (fun h => (h.offset, (h.col : Int)))) ∧
+    (ofBMS d).holds.Perm (c.holds.map (fun h => (h.offset, (h.col : Int), h.tail - h.offset))) := by
+  constructor
+  · -- hits
+    have e1 : (ofBMS d).hits = lay.lanes.flatMap (fun lane =>
+        (((items lane).map (TAtom.toAtom (posFn cs) c.lnEnd)).flatMap (Atom.hits so lane.2)).map
+          (fun h => (timeAt 0 d.tempo h.snap, (h.col : Int)))) := by
+      rw [show (ofBMS d).hits = d.hits.map (fun h => (h.offset, (h.col : Int))) from rfl, hh, hsh, List.map_map,
+        List.map_flatMap]
+      rfl
+    rw [e1]
+    have hlane : ∀ lane ∈ lay.lanes,
+        ((((items lane).map (TAtom.toAtom (posFn cs) c.lnEnd)).flatMap (Atom.hits so lane.2)).map
+          (fun h => (timeAt 0 d.tempo h.snap, (h.col : Int)))).Perm
+        ((c.hits.filter (fun h => decide (h.col = lane.2))).map (fun h => (h.offset, (h.col : Int)))) := by
+      intro lane hlane
+      have hp := ((((hitems lane hlane).map (TAtom.toAtom (posFn cs) c.lnEnd)).flatMap_right
+        (Atom.hits so lane.2))).map (fun h : SHit => (timeAt 0 d.tempo h.snap, (h.col : Int)))
+      refine hp.trans (List.Perm.of_eq ?_)
+      simp only [laneItems, List.map_append, List.flatMap_append, atoms_hits_of_hits, atoms_hits_of_holds,
+        List.append_nil, List.map_nil]
+      rw [List.map_map]
+      apply List.map_congr_left
+      intro h hmem
+      obtain ⟨hc, hcol⟩ := List.mem_filter.mp hmem
+      simp only [decide_eq_true_eq] at hcol
+      have hin : TAtom.hit h.offset (sampleId c.samples dflt h.sample) ∈ items lane := by
+        refine (hitems lane hlane).mem_iff.mpr ?_
+        simp only [laneItems, List.mem_append, List.mem_map]
+        exact Or.inl ⟨h, List.mem_filter.mpr ⟨hc, by simpa using hcol⟩, rfl⟩
+      have := hexact lane hlane _ hin h.offset (by simp [TAtom.times])
+      simp only [Function.comp, this, hcol]
+    refine (List.Perm.flatMap_left _ hlane).trans ?_
+    have e2 : lay.lanes.flatMap (fun lane => (c.hits.filter (fun h => decide (h.col = lane.2))).map
+        (fun h => (h.offset, (h.col : Int)))) =
+        ((lay.lanes.map (·.2)).flatMap (fun k => c.hits.filter (fun h => decide (h.col = k)))).map
+          (fun h => (h.offset, (h.col : Int))) := by
+      simp only [List.map_flatMap, List.flatMap_map]
+    rw [e2]
+    exact (flatMap_filter_perm (fun h : HitOut => h.col) _ hnd c.hits hcolH).map _
+  · -- holds
+    have e1 : (ofBMS d).holds = lay.lanes.flatMap (fun lane =>
+        (((items lane).map (TAtom.toAtom (posFn cs) c.lnEnd)).flatMap (Atom.holds so lane.2)).map
+          (fun h => (timeAt 0 d.tempo h.head, (h.col : Int), timeAt 0 d.tempo h.tail - timeAt 0 d.tempo h.head))) := by
+      rw [show (ofBMS d).holds = d.holds.map (fun h => (h.offset, (h.col : Int), h.length)) from rfl, hl, hsl,
+        List.map_map, List.map_flatMap]
+      rfl
+    rw [e1]
+    have hlane : ∀ lane ∈ lay.lanes,
+        ((((items lane).map (TAtom.toAtom (posFn cs) c.lnEnd)).flatMap (Atom.holds so lane.2)).map
+          (fun h => (timeAt 0 d.tempo h.head, (h.col : Int), timeAt 0 d.tempo h.tail - timeAt 0 d.tempo h.head))).Perm
+        ((c.holds.filter (fun h => decide (h.col = lane.2))).map
+          (fun h => (h.offset, (h.col : Int), h.tail - h.offset))) := by
+      intro lane hlane
+      have hp := ((((hitems lane hlane).map (TAtom.toAtom (posFn cs) c.lnEnd)).flatMap_right
+        (Atom.holds so lane.2))).map
+          (fun h : SHold => (timeAt 0 d.tempo h.head, (h.col : Int), timeAt 0 d.tempo h.tail - timeAt 0 d.tempo h.head))
+      refine hp.trans (List.Perm.of_eq ?_)
+      simp only [laneItems, List.map_append, List.flatMap_append, atoms_holds_of_hits, atoms_holds_of_holds,
+        List.nil_append, List.map_nil]
+      rw [List.map_map]
+      apply List.map_congr_left
+      intro h hmem
+      obtain ⟨hc, hcol⟩ := List.mem_filter.mp hmem
+      simp only [decide_eq_true_eq] at hcol
+      have hin : TAtom.hold h.offset h.tail (sampleId c.samples dflt h.sample) ∈ items lane := by
+        refine (hitems lane hlane).mem_iff.mpr ?_
+        simp only [laneItems, List.mem_append, List.mem_map]
+        exact Or.inr ⟨h, List.mem_filter.mpr ⟨hc, by simpa using hcol⟩, rfl⟩
+      have t1 := hexact lane hlane _ hin h.offset (by simp [TAtom.times])
+      have t2 := hexact lane hlane _ hin h.tail (by simp [TAtom.times])
+      simp only [Function.comp, t1, t2, hcol]
+    refine (List.Perm.flatMap_left _ hlane).trans ?_
+    have e2 : lay.lanes.flatMap (fun lane => (c.holds.filter (fun h => decide (h.col = lane.2))).map
+        (fun h => (h.offset, (h.col : Int), h.tail - h.offset))) =
+        ((lay.lanes.map (·.2)).flatMap (fun k => c.holds.filter (fun h => decide (h.col = k)))).map
+          (fun h => (h.offset, (h.col : Int), h.tail - h.offset)) := by
+      simp only [List.map_flatMap, List.flatMap_map]
+    rw [e2]
+    exact (flatMap_filter_perm (fun h : WHold => h.col) _ hnd c.holds hcolL).map _
+
+open Reamber.BMS Reamber.PermInv in
+/-- the hypotheses of C05 `bms_write_read` on the chart `c` that is written (the open findings D06 / D35 / D36 / D37 are
+excluded by `hdec` / `hp` / `hR` / `hitems`+`hasc`), plus the exact regime: every object time on the snap grid -/
+structure BMSWritable (cs : List BcSnap) (lay : BMS.Layout) (dflt : BMS.Bytes) (c : BMS.WChart)
+    (items : BMS.Bytes × Nat → List TAtom) : Prop where
+  hwf : wfChanges cs = true
+  hs : strictSnaps cs = true
+  h0 : firstAtZero cs = true
+  hgc : gridCompatible (grid defaultMaxDiv) cs = true
+  hm : metronomeOk cs = true
+  hlay : LayoutOK lay
+  hts : lay.exbpmCh ≠ lay.timeSig ∧ ∀ lane ∈ lay.lanes, lane.1 ≠ lay.timeSig
+  hp : c.bpms.Perm (tmOf 0 cs)
+  hok : BmsOk cs lay c
+  hR : RowsOK (bmsNoteRows cs lay dflt c ++ bmsTempoRows cs lay c)
+  hv : ∀ r ∈ bmsNoteRows cs lay dflt c, r.value ≠ ['0', '0']
+  hH : HeaderOK c
+  hdec : ∀ b ∈ c.bpms, roundDec 3 b.bpm = b.bpm
+  hhdr : ∃ hl, writeHeader c = .ok hl
+  hitems : ∀ lane ∈ lay.lanes, (items lane).Perm (laneItems c dflt lane.2) ∧ (∀ a ∈ items lane, a.idOk c.lnEnd)
+  hasc : ∀ lane ∈ lay.lanes, ((items lane).flatMap TAtom.times).Pairwise (fun a b => a ≤ b)
+  hgrid : ∀ lane ∈ lay.lanes, ∀ a ∈ items lane, ∀ t ∈ a.times, OnGridAt (grid defaultMaxDiv) 0 cs t
+
+open Reamber.BMS Reamber.PermInv in
+/-- **writer link into BMS over the abstract chart, exact regime** (C05 `bms_write_read` + `bms_denoted_objects_exact`):
+the writer succeeds, the written lines have a by-the-book meaning, and its hits and holds are exactly the chart's. -/
+theorem bms_written_objects_exact (cs : List BcSnap) (lay : BMS.Layout) (dflt : BMS.Bytes) (c : BMS.WChart)
+    (items : BMS.Bytes × Nat → List TAtom) (H : BMSWritable cs lay dflt c items) :
+    ∃ lines d, BMS.write defaultGrid lay dflt c = .ok lines ∧ BMS.denote lay lines = some d ∧
+      (ofBMS d).hits.Perm (c.hits.map (fun h => (h.offset, (h.col : Int)))) ∧
+      (ofBMS d).holds.Perm (c.holds.map (fun h => (h.offset, (h.col : Int), h.tail - h.offset))) := by
+  obtain ⟨hl, hhdr⟩ := H.hhdr
+  obtain ⟨lines, d, b0, hw, hd, _, _, hsh, hsl, hh, hlh, htimes⟩ := bms_write_read cs H.hwf H.hs H.h0 H.hgc H.hm lay H.hlay
+    H.hts dflt c H.hp H.hok H.hR H.hv H.hH H.hdec hl hhdr items H.hitems H.hasc
+  obtain ⟨r1, r2⟩ := bms_denoted_objects_exact cs lay H.hlay.cols_nodup dflt c
+    (fun h hh' => col_mem_of_channelOf lay h.col (H.hok.cols.1 h hh'))
+    (fun h hh' => col_mem_of_channelOf lay h.col (H.hok.cols.2 h hh'))
+    items (fun lane hlane => (H.hitems lane hlane).1) d _ hsh hsl hh hlh
+    (fun lane hlane a ha t ht => (htimes lane hlane a ha t ht).2 (H.hgrid lane hlane a ha t ht))
+  exact ⟨lines, d, hw, hd, r1, r2⟩
+
+/-- the in-memory `BMSMap` that is written holds exactly the hit and hold rows of the converted frames (the
+representation glue between C08's frames and C05's chart type; a hold's `length` is `tail − offset`) -/
+def RepresentsBMS (wc : BMS.WChart) (t : Convert.TChart) : Prop :=
+  wc.hits.map (fun h => (h.offset, (h.col : Int))) = (ofTChart t).hits ∧
+  wc.holds.map (fun h => (h.offset, (h.col : Int), h.tail - h.offset)) = (ofTChart t).holds
+
+open Reamber.BMS Reamber.PermInv in
+/-- **convert, then write as BMS — all 17 converter entries, shift parameter included** (`_partial`: objects, exact
+regime; C08 `converters_spec` + C05 `bms_write_read` chained over `AChart`): for every well-formed source, shift argument
+`k`, source map `m` with its converted chart `t`, and every BMS chart `wc` that holds `t`'s rows and satisfies C05's
+hypotheses with all object times on the snap grid (`BMSWritable`): the writer succeeds, the written lines have a
+by-the-book meaning `d`, and `d`'s hits and holds are EXACTLY those of the source map `m` with the columns moved by the
+shift argument (`ObjectsClose` in the exact regime).  `_partial`: the tempo timeline (C05 gives `d.tempo` = header tempo ::
+`cs`; that its normalised timeline is the chart's is not composed), the off-grid regime (C05's bound
+`1/192·activeBeatLen` is not yet related to `tolAt`), the reader link and `RepresentsBMS` are hypotheses. -/
+theorem convert_write_bms_objects_partial : ∀ cv ∈ Generated.converters,
+    ∀ (src : Convert.Src) (k : Int) (out : Convert.Out),
+    (∀ m ∈ src.maps, Convert.srcMapOk m = true) → Convert.convert Convert.tables cv src k = .ok out →
+    ∀ p ∈ src.maps.zip out.pairs, ∀ (cs : List BcSnap) (lay : BMS.Layout) (dflt : BMS.Bytes) (wc : BMS.WChart)
+      (items : BMS.Bytes × Nat → List TAtom), RepresentsBMS wc p.2.2 → BMSWritable cs lay dflt wc items →
+      ∃ lines d, BMS.write defaultGrid lay dflt wc = .ok lines ∧ BMS.denote lay lines = some d ∧
+        ObjectsClose 0 (.beat (1 / 192) (1 / 192)) true 0 (shiftCols (Convert.effShift cv k) (ofSrcMap p.1)) (ofBMS d) := by
+  intro cv hc src k out hsrc hconv p hp cs lay dflt wc items hrep H
+  have hcontent : (src.maps.zip out.pairs).all (fun p => Convert.contentOk (Convert.effShift cv k) p.1 p.2.2) = true :=
+    Convert.convert_content Convert.tables cv src k out (Convert.table_static_ok cv hc) hsrc hconv
+  have hp' := List.all_eq_true.mp hcontent p hp
+  obtain ⟨hh, hl, _⟩ := contentOk_abstract _ _ _ hp'
+  obtain ⟨lines, d, hw, hd, r1, r2⟩ := bms_written_objects_exact cs lay dflt wc items H
+  refine ⟨lines, d, hw, hd, ?_, ?_⟩
+  · exact paired_of_perm_exact _ (fun x => closeHit_exact_refl _ _ x _ _ rfl) _ _ ((r1.trans (List.Perm.of_eq hrep.1)).trans hh)
+  · exact paired_of_perm_exact _ (fun x => closeHold_exact_refl _ x _ _) _ _ ((r2.trans (List.Perm.of_eq hrep.2)).trans hl)
+
+open Reamber.BMS Reamber.PermInv in
+/-- non-vacuity of `BMSWritable`: the chart of C05's own example (two tempo rows in reverse order, a hit and a hold whose
+times 0 and 2000 ms lie on measure lines, layout `PMS_5B`) satisfies every hypothesis, the exact regime included -/
+example : BMSWritable wrExCs wrExLay "01".toList wrExChart (fun lane => laneItems wrExChart "01".toList lane.2) := by
+  have hlay := layouts_ok "PMS_5B" (by decide) wrExLay wrExLay_eq
+  have hts := layouts_timeSig "PMS_5B" (by decide) wrExLay wrExLay_eq
+  have hp : wrExChart.bpms.Perm (tmOf 0 wrExCs) := by rw [wrExCs_tm]; exact List.Perm.swap _ _ _
+  have hok : BmsOk wrExCs wrExLay wrExChart := by
+    refine ⟨by decide +kernel, by decide +kernel, by decide +kernel, by decide +kernel⟩
+  have hR : RowsOK (bmsNoteRows wrExCs wrExLay "01".toList wrExChart ++ bmsTempoRows wrExCs wrExLay wrExChart) := by
+    rw [wrExRows_eq]; exact wrExRowsOK
+  have hv : ∀ r ∈ bmsNoteRows wrExCs wrExLay "01".toList wrExChart, r.value ≠ ['0', '0'] := by
+    intro r hr
+    have : r ∈ wrExRows := by rw [← wrExRows_eq]; exact List.mem_append_left _ hr
+    have hall : ∀ r ∈ wrExRows, r.value ≠ ['0', '0'] := by decide +kernel
+    exact hall r this
+  have hH : HeaderOK wrExChart :=
+    ⟨by intro kv hkv; simp [wrExChart] at hkv, by intro kv hkv; simp [wrExChart] at hkv, by decide +kernel, by decide +kernel, by decide +kernel⟩
+  have hdec : ∀ b ∈ wrExChart.bpms, roundDec 3 b.bpm = b.bpm := by decide +kernel
+  have hhdr : ∃ hl, writeHeader wrExChart = .ok hl := by
+    have h : (writeHeader wrExChart).toOption.isSome = true := by decide +kernel
+    cases hw : writeHeader wrExChart with
+    | ok hl => exact ⟨hl, rfl⟩
+    | error e => rw [hw] at h; cases h
+  have hitems : ∀ lane ∈ wrExLay.lanes, (laneItems wrExChart "01".toList lane.2).Perm (laneItems wrExChart "01".toList lane.2) ∧
+      (∀ a ∈ laneItems wrExChart "01".toList lane.2, a.idOk wrExChart.lnEnd) := by
+    intro lane _
+    refine ⟨List.Perm.refl _, ?_⟩
+    intro a ha
+    simp only [laneItems, List.mem_append, List.mem_map] at ha
+    rcases ha with ⟨h, _, rfl⟩ | ⟨h, _, rfl⟩
+    · simp only [TAtom.idOk, wrExChart, sampleId, List.reverse_nil, List.find?_nil, Option.map_none, Option.getD_none]; decide
+    · simp only [TAtom.idOk, wrExChart, sampleId, List.reverse_nil, List.find?_nil, Option.map_none, Option.getD_none]; decide
+  have hasc : ∀ lane ∈ wrExLay.lanes,
+      ((laneItems wrExChart "01".toList lane.2).flatMap TAtom.times).Pairwise (fun a b => a ≤ b) := by decide +kernel
+  have hz : (0 : Rat) ∈ grid defaultMaxDiv := by
+    have := (gridOK_grid (by decide) : GridOK defaultGrid).zero_mem
+    simpa [defaultGrid] using this
+  have e1 : (0 + snapDist (⟨0, 0, some 4⟩ : Snap) ⟨1, 0, some 4⟩ 4 * beatLen 120 : Rat) = 2000 := by decide +kernel
+  have f1 : frac (((0 : Rat) - 0) / beatLen 120) = 0 := by decide +kernel
+  have f2 : frac (((2000 : Rat) - 2000) / beatLen 60) = 0 := by decide +kernel
+  have g0 : OnGridAt (grid defaultMaxDiv) 0 wrExCs 0 := by
+    refine ⟨by decide +kernel, ?_⟩
+    simp only [onGridAux, e1]
+    rw [if_neg (by decide +kernel), f1]
+    exact hz
+  have g1 : OnGridAt (grid defaultMaxDiv) 0 wrExCs 2000 := by
+    refine ⟨by decide +kernel, ?_⟩
+    simp only [onGridAux, e1]
+    rw [if_pos (by decide +kernel), f2]
+    exact hz
+  have hgrid : ∀ lane ∈ wrExLay.lanes, ∀ a ∈ laneItems wrExChart "01".toList lane.2, ∀ t ∈ a.times,
+      OnGridAt (grid defaultMaxDiv) 0 wrExCs t := by
+    intro lane _ a ha t ht
+    have hts' : t = 0 ∨ t = 2000 := by
+      simp only [laneItems, wrExChart, List.mem_append, List.mem_map, List.mem_filter] at ha
+      rcases ha with ⟨h, ⟨hm, _⟩, rfl⟩ | ⟨h, ⟨hm, _⟩, rfl⟩
+      · simp only [List.mem_cons, List.not_mem_nil, or_false] at hm
+        subst hm
+        simp [TAtom.times] at ht
+        exact Or.inl ht
+      · simp only [List.mem_cons, List.not_mem_nil, or_false] at hm
+        subst hm
+        simp [TAtom.times] at ht
+        exact ht
+    rcases hts' with rfl | rfl
+    · exact g0
+    · exact g1
+  exact ⟨wrExCs_ok.1, wrExCs_ok.2.1, wrExCs_ok.2.2.1, wrExCs_gc, wrExCs_ok.2.2.2, hlay, hts, hp, hok, hR, hv, hH, hdec, hhdr,
+    hitems, hasc, hgrid⟩
+
+def osuToBMS : Convert.Conv := Convert.conv! "OsuToBMS.convert"
+def quaToBMS : Convert.Conv := Convert.conv! "QuaToBMS.convert"
+
+theorem toBMS_entries : osuToBMS ∈ Generated.converters ∧ osuToBMS.name = "OsuToBMS.convert" ∧
+    quaToBMS ∈ Generated.converters ∧ quaToBMS.name = "QuaToBMS.convert" := by
+  decide +kernel
+
+open Reamber.BMS Reamber.PermInv in
+/-- **osu → BMS, end to end, objects, exact regime** (`_partial`; osu text to the written BMS lines; reader C01, converter
+C08 with its `move_right_by` shift, writer C05): let an osu text of the dialect denote `c0` (key count ≥ 1).  Then the
+reader returns `c0`; whenever the converter model's `OsuToBMS.convert` succeeds on the frames of `c0` with shift argument
+`k`, for every converted chart `t` and every BMS chart `wc` that holds `t`'s rows (`RepresentsBMS`) inside C05's domain with
+all object times on the snap grid (`BMSWritable`): the writer succeeds, the written lines have a by-the-book meaning `d`,
+and `d`'s hits and holds are EXACTLY those of the source file with the columns moved by the shift.
+`_partial`: see `convert_write_bms_objects_partial` (tempo timeline, off-grid regime, `RepresentsBMS`). -/
+theorem osu_to_bms_objects_partial (s : Osu.Skeleton) (hwf : s.WF) (lines : List Osu.Str)
+    (hl : lines.map Osu.strip = s.lines) (c0 : Osu.Chart) (hden : Osu.denote lines = .ok c0)
+    (hk : 1 ≤ Osu.pyTrunc c0.md.circleSize) (k : Int) (out : Convert.Out)
+    (hconv : Convert.convert Convert.tables osuToBMS ⟨[], [embOsu c0]⟩ k = .ok out) :
+    Osu.read lines = .ok c0 ∧
+    ∀ p ∈ [embOsu c0].zip out.pairs, ∀ (cs : List BcSnap) (lay : BMS.Layout) (dflt : BMS.Bytes) (wc : BMS.WChart)
+      (items : BMS.Bytes × Nat → List TAtom), RepresentsBMS wc p.2.2 → BMSWritable cs lay dflt wc items →
+      ∃ blines d, BMS.write defaultGrid lay dflt wc = .ok blines ∧ BMS.denote lay blines = some d ∧
+        ObjectsClose 0 (.beat (1 / 192) (1 / 192)) true 0 (shiftCols (Convert.effShift osuToBMS k) (ofOsu c0)) (ofBMS d) := by
+  obtain ⟨hc, _, _, _⟩ := toBMS_entries
+  refine ⟨Osu.read_eq_denote s hwf lines hl c0 hden hk, ?_⟩
+  intro p hp cs lay dflt wc items hrep H
+  have hsrc : ∀ m ∈ (⟨[], [embOsu c0]⟩ : Convert.Src).maps, Convert.srcMapOk m = true := by
+    intro m hm
+    simp only [List.mem_singleton] at hm
+    subst hm
+    exact srcMapOk_embOsu c0
+  have hp1 : p.1 = embOsu c0 := by
+    have := (List.of_mem_zip hp).1
+    simpa using this
+  have := convert_write_bms_objects_partial _ hc _ k out hsrc hconv p hp cs lay dflt wc items hrep H
+  rw [hp1, ofSrcMap_embOsu] at this
+  exact this
+
+open Reamber.BMS Reamber.PermInv in
+/-- **Quaver → BMS, end to end, objects, exact regime** (`_partial` as `osu_to_bms_objects_partial`; reader C06) -/
+theorem qua_to_bms_objects_partial (d0 : Qua.Doc) (hdecl : Qua.Spec.objsDeclared d0 = true) (c0 : Qua.Chart)
+    (hden : Qua.Spec.denote d0 = .ok c0) (k : Int) (out : Convert.Out)
+    (hconv : Convert.convert Convert.tables quaToBMS ⟨[], [embQua c0]⟩ k = .ok out) :
+    Qua.read d0 = .ok c0 ∧
+    ∀ p ∈ [embQua c0].zip out.pairs, ∀ (cs : List BcSnap) (lay : BMS.Layout) (dflt : BMS.Bytes) (wc : BMS.WChart)
+      (items : BMS.Bytes × Nat → List TAtom), RepresentsBMS wc p.2.2 → BMSWritable cs lay dflt wc items →
+      ∃ blines d, BMS.write defaultGrid lay dflt wc = .ok blines ∧ BMS.denote lay blines = some d ∧
+        ObjectsClose 0 (.beat (1 / 192) (1 / 192)) true 0 (shiftCols (Convert.effShift quaToBMS k) (ofQua c0)) (ofBMS d) := by
+  obtain ⟨_, _, hc, _⟩ := toBMS_entries
+  refine ⟨by rw [Qua.qua_read_defaults d0 hdecl]; exact hden, ?_⟩
+  intro p hp cs lay dflt wc items hrep H
+  have hsrc : ∀ m ∈ (⟨[], [embQua c0]⟩ : Convert.Src).maps, Convert.srcMapOk m = true := by
+    intro m hm
+    simp only [List.mem_singleton] at hm
+    subst hm
+    exact srcMapOk_embQua c0
+  have hp1 : p.1 = embQua c0 := by
+    have := (List.of_mem_zip hp).1
+    simpa using this
+  have := convert_write_bms_objects_partial _ hc _ k out hsrc hconv p hp cs lay dflt wc items hrep H
+  rw [hp1, ofSrcMap_embQua] at this
+  exact this
+
+/-- non-vacuity of the converter hypotheses: on the frames of a small osu chart `OsuToBMS.convert` (shift 1) succeeds and
+the converted chart holds the chart's rows one column to the right -/
+example :
+    let c : Osu.Chart := { hits := [{ offset := 0, column := 0 }], bpms := [⟨0, 120, 4, 0, 0, 0, false⟩] }
+    (match Convert.convert Convert.tables osuToBMS ⟨[], [embOsu c]⟩ 1 with
+     | .ok out => out.charts.map (fun t => (ofTChart t).hits) == [[(0, 1)]]
+     | .error _ => false) = true := by decide +kernel
+
+/-! ## O2Jam → StepMania / BMS, bytes to written file -/
+
+def o2jToSM : Convert.Conv := Convert.conv! "O2JToSM.convert"
+def o2jToBMS : Convert.Conv := Convert.conv! "O2JToBMS.convert"
+
+theorem o2j_entries2 : o2jToSM ∈ Generated.converters ∧ o2jToSM.name = "O2JToSM.convert" ∧ o2jToSM.shiftParam = none ∧
+    o2jToBMS ∈ Generated.converters ∧ o2jToBMS.name = "O2JToBMS.convert" := by
+  decide +kernel
+
+/-- **O2Jam → StepMania, end to end, exact regime** (`_partial` as `osu_to_sm_end_to_end_partial`; bytes of the .ojn to the
+text `SMMapSet.write` returns for each level; reader C07 `read_spec`): one converted chart per level, and for every level
+`l` (columns not negative) with its converted chart `t` and every `SMWritable` header / renderer / written structure, the
+written text's denotation has `#OFFSET` = −`h.offset`/1000 and exactly `l`'s hits, holds and tempo points.  The rule of
+`O2JToSM` is offset `0.0` (`sm_offset_rules`), and an O2Jam level's first tempo point is at 0 ms
+(`o2j_first_tempo_at_zero`), so `SMWritable`'s `h.offset = t0` is met with `t0 = 0`. -/
+theorem o2j_to_sm_end_to_end_partial (bs : List Nat) (hwf : O2J.Spec.wellFormed bs = true) (f : O2J.FileOut)
+    (hspec : O2J.Spec.specSet bs = .ok f) (k : Int) (out : Convert.Out)
+    (hconv : Convert.convert Convert.tables o2jToSM (o2jSrc f) k = .ok out) :
+    O2J.readFile bs = .ok f ∧ out.charts.length = f.levels.length ∧
+    ∀ p ∈ f.levels.zip out.pairs, ColsNonneg (ofO2J p.1) →
+      ∀ (sh : SM.Shows) (t0 : Rat) (cs : List BcSnap) (h : SM.WHeader) (ty desc diff : SM.Str) (dv : Int)
+        (groove : List Rat) (w : SM.Written), SMWritable sh t0 cs h (smOfT p.2.2 ty desc diff dv groove) w →
+        ∃ d, SM.denote (SM.renderWritten sh w) = some d ∧ d.offsetSec = some w.offsetSec ∧ d.bpms = some w.bpms ∧
+          -(1000 * w.offsetSec) = h.offset ∧ d.chartsWellFormed = true ∧ d.charts.length = 1 ∧
+          ∀ (hd : 0 < d.charts.length),
+            CloseTo 0 (.beat (1 / 96) (1 / 192)) true 0 (ofO2J p.1) (ofSMChart w.offsetSec w.bpms d.charts[0]) := by
+  obtain ⟨hc, _, hns, _, _⟩ := o2j_entries2
+  refine ⟨by rw [O2J.read_spec bs hwf]; exact hspec, ?_, ?_⟩
+  · have := Convert.one_per_source _ _ _ _ _ (Convert.table_shapes _ hc) hconv
+    simpa [Convert.onePerSource, o2jSrc] using this
+  · intro p hp hcols sh t0 cs h ty desc diff dv groove w H
+    have := convert_write_sm_partial _ hc hns _ k out (o2jSrc_ok f) hconv _ (o2jSrc_zip f _ p hp)
+      (by simpa [ofSrcMap_embA] using hcols) sh t0 cs h ty desc diff dv groove w H
+    simpa [ofSrcMap_embA] using this
+
+open Reamber.BMS Reamber.PermInv in
+/-- **O2Jam → BMS, end to end, objects, exact regime** (`_partial` as `osu_to_bms_objects_partial`; reader C07) -/
+theorem o2j_to_bms_objects_partial (bs : List Nat) (hwf : O2J.Spec.wellFormed bs = true) (f : O2J.FileOut)
+    (hspec : O2J.Spec.specSet bs = .ok f) (k : Int) (out : Convert.Out)
+    (hconv : Convert.convert Convert.tables o2jToBMS (o2jSrc f) k = .ok out) :
+    O2J.readFile bs = .ok f ∧ out.charts.length = f.levels.length ∧
+    ∀ p ∈ f.levels.zip out.pairs, ∀ (cs : List BcSnap) (lay : BMS.Layout) (dflt : BMS.Bytes) (wc : BMS.WChart)
+      (items : BMS.Bytes × Nat → List TAtom), RepresentsBMS wc p.2.2 → BMSWritable cs lay dflt wc items →
+      ∃ blines d, BMS.write defaultGrid lay dflt wc = .ok blines ∧ BMS.denote lay blines = some d ∧
+        ObjectsClose 0 (.beat (1 / 192) (1 / 192)) true 0 (shiftCols (Convert.effShift o2jToBMS k) (ofO2J p.1)) (ofBMS d) := by
+  obtain ⟨_, _, _, hc, _⟩ := o2j_entries2
+  refine ⟨by rw [O2J.read_spec bs hwf]; exact hspec, ?_, ?_⟩
+  · have := Convert.one_per_source _ _ _ _ _ (Convert.table_shapes _ hc) hconv
+    simpa [Convert.onePerSource, o2jSrc] using this
+  · intro p hp cs lay dflt wc items hrep H
+    have := convert_write_bms_objects_partial _ hc _ k out (o2jSrc_ok f) hconv _ (o2jSrc_zip f _ p hp) cs lay dflt wc items
+      hrep H
+    simpa [ofSrcMap_embA] using this
+
+/-- non-vacuity of the converter hypotheses: on the frames of a one-level set both converter models succeed -/
+example :
+    let lv : O2J.LevelOut := ⟨[], [⟨0, 120, 0⟩, ⟨1, 150, 2000⟩]⟩
+    let f : O2J.FileOut := ⟨[], [lv]⟩
+    (match Convert.convert Convert.tables o2jToSM (o2jSrc f) 0 with
+     | .ok out => out.charts.map (fun t => (ofTChart t).bpms) == [[(0, 120), (2000, 150)]]
+     | .error _ => false) = true ∧
+    (match Convert.convert Convert.tables o2jToBMS (o2jSrc f) 0 with
+     | .ok out => out.charts.map (fun t => (ofTChart t).bpms) == [[(0, 120), (2000, 150)]]
+     | .error _ => false) = true := by decide +kernel
+
+/-! ## the two remaining pairs: StepMania → BMS and BMS → StepMania (objects, exact regime) -/
+
+def smToBMS : Convert.Conv := Convert.conv! "SMToBMS.convert"
+def bmsToSM : Convert.Conv := Convert.conv! "BMSToSM.convert"
+
+theorem sm_bms_entries : smToBMS ∈ Generated.converters ∧ smToBMS.name = "SMToBMS.convert" ∧
+    bmsToSM ∈ Generated.converters ∧ bmsToSM.name = "BMSToSM.convert" ∧ bmsToSM.shiftParam = none := by
+  decide +kernel
+
+/-- in the exact regime the object part of the statement depends on the source only through its rows -/
+theorem objectsClose_exact_of_perm (f g : Rat) (a a' tgt : AChart) (hh : a.hits.Perm a'.hits) (hl : a.holds.Perm a'.holds)
+    (h : ObjectsClose 0 (.beat f g) true 0 a tgt) : ObjectsClose 0 (.beat f g) true 0 a' tgt :=
+  ⟨paired_of_perm_left _ _ _ _ hh h.1, paired_of_perm_left _ _ _ _ hl h.2⟩
+
+theorem objectsClose_exact_shift_of_perm (f g : Rat) (k : Int) (a a' tgt : AChart) (hh : a.hits.Perm a'.hits)
+    (hl : a.holds.Perm a'.holds) (h : ObjectsClose 0 (.beat f g) true 0 (shiftCols k a) tgt) :
+    ObjectsClose 0 (.beat f g) true 0 (shiftCols k a') tgt :=
+  objectsClose_exact_of_perm f g _ _ _ (hh.map _) (hl.map _) h
+
+open Reamber.BMS Reamber.PermInv in
+/-- **StepMania → BMS, end to end, objects, exact regime** (`_partial`: as `sm_to_osu_end_to_end_partial` on the reader
+side — one `#NOTES` value, measure-line tempo changes — and as `convert_write_bms_objects_partial` on the writer side) -/
+theorem sm_to_bms_objects_partial (σf : List Snap → List Nat) (hσ : ∀ qs, SortsAsc (σf qs) qs)
+    (data : SM.Str) (t0 : Rat) (cs0 : List BcSnap) (offsetSec : Rat) (b : List (Rat × Rat)) (ms : List (List SM.Str))
+    (D : SMChartDom data t0 cs0 offsetSec b ms) (ss : Bool) (rb : List (Rat × Rat)) (notes : List SM.Note)
+    (h : SM.readNotesWith σf data (some t0) (some cs0) ss = .ok (rb, notes))
+    (ps : List SM.Str) (hps : ps.getD 5 [] = data)
+    (svs : Option (List (Rat × Rat))) (setAttrs mapAttrs : List (String × String)) (lv : String) (k : Int)
+    (out : Convert.Out)
+    (hconv : Convert.convert Convert.tables smToBMS (srcOfAbstract [ofSMRead rb notes] svs setAttrs mapAttrs lv) k = .ok out) :
+    ∀ p ∈ [ofSMRead rb notes].zip out.pairs, ∀ (cs : List BcSnap) (lay : BMS.Layout) (dflt : BMS.Bytes) (wc : BMS.WChart)
+      (items : BMS.Bytes × Nat → List TAtom), RepresentsBMS wc p.2.2 → BMSWritable cs lay dflt wc items →
+      ∃ blines d, BMS.write defaultGrid lay dflt wc = .ok blines ∧ BMS.denote lay blines = some d ∧
+        ObjectsClose 0 (.beat (1 / 192) (1 / 192)) true 0
+          (shiftCols (Convert.effShift smToBMS k) (ofSMChart offsetSec b (SM.denoteChart ps))) (ofBMS d) := by
+  have hr := sm_read_abstract σf hσ data t0 cs0 ss D.hwf D.hs D.h0 D.hgc D.hm D.hline offsetSec b D.ho D.hb D.hsorted ms
+    D.hms D.hsc D.h4 D.hcol D.hok D.hclosed rb notes h ps hps
+  obtain ⟨hc, _, _, _, _⟩ := sm_bms_entries
+  intro p hp cs lay dflt wc items hrep H
+  have hsrc : ∀ m ∈ (srcOfAbstract [ofSMRead rb notes] svs setAttrs mapAttrs lv).maps, Convert.srcMapOk m = true := by
+    intro m hm
+    simp only [srcOfAbstract, List.mem_map] at hm
+    obtain ⟨a, _, rfl⟩ := hm
+    exact srcMapOk_embA _ _ _ _
+  have hmem : (embA p.1 svs mapAttrs lv, p.2) ∈ (srcOfAbstract [ofSMRead rb notes] svs setAttrs mapAttrs lv).maps.zip out.pairs := by
+    simp only [srcOfAbstract, List.zip_map_left]
+    exact List.mem_map.mpr ⟨p, hp, rfl⟩
+  obtain ⟨blines, d, hw, hd, hobj⟩ := convert_write_bms_objects_partial _ hc _ k out hsrc hconv _ hmem cs lay dflt wc items
+    hrep H
+  have hp1 : p.1 = ofSMRead rb notes := by
+    have := (List.of_mem_zip hp).1
+    simpa using this
+  rw [ofSrcMap_embA, hp1] at hobj
+  exact ⟨blines, d, hw, hd, objectsClose_exact_shift_of_perm _ _ _ _ _ _ hr.1 hr.2.1 hobj⟩
+
+/-- **BMS → StepMania, end to end, objects, exact regime** (`_partial`: reader side as `bms_to_osu_objects_partial` — the
+tempo timeline is that of the reader's stored list —, writer side as `osu_to_sm_end_to_end_partial`): the written .sm
+text's denotation holds exactly the hits and holds of the SOURCE's denotation `d`, and exactly the in-memory chart incl.
+its stored tempo list. -/
+theorem bms_to_sm_objects_partial (lay : BMS.Layout) (hlay : BMS.LayoutOK lay) (lines : List BMS.Bytes)
+    (d : BMS.Denotation) (hden : BMS.denote lay lines = some d)
+    (hord : ∀ doc, BMS.parseDoc lines = .ok doc → BMS.LanesInOrder lay doc.notes)
+    (hgc : gridCompatible (grid defaultMaxDiv) d.tempo = true) (c : BMS.Chart)
+    (hr : BMS.read defaultGrid lay lines = .ok c)
+    (dec : BMS.Bytes → String) (setAttrs mapAttrs : List (String × String)) (lv : String) (k : Int)
+    (out : Convert.Out)
+    (hconv : Convert.convert Convert.tables bmsToSM ⟨setAttrs, [embBMS dec c mapAttrs lv]⟩ k = .ok out) :
+    ∀ p ∈ [embBMS dec c mapAttrs lv].zip out.pairs,
+      ∀ (sh : SM.Shows) (t0 : Rat) (cs : List BcSnap) (h : SM.WHeader) (ty desc diff : SM.Str) (dv : Int)
+        (groove : List Rat) (w : SM.Written), SMWritable sh t0 cs h (smOfT p.2.2 ty desc diff dv groove) w →
+        ∃ ds, SM.denote (SM.renderWritten sh w) = some ds ∧ ds.offsetSec = some w.offsetSec ∧ ds.bpms = some w.bpms ∧
+          -(1000 * w.offsetSec) = h.offset ∧ ds.chartsWellFormed = true ∧ ds.charts.length = 1 ∧
+          ∀ (hd : 0 < ds.charts.length),
+            ObjectsClose 0 (.beat (1 / 96) (1 / 192)) true 0 (ofBMS d) (ofSMChart w.offsetSec w.bpms ds.charts[0]) ∧
+            CloseTo 0 (.beat (1 / 96) (1 / 192)) true 0 (ofBMSRead c) (ofSMChart w.offsetSec w.bpms ds.charts[0]) := by
+  have hra := bms_read_abstract lay hlay lines d hden hord hgc c hr
+  obtain ⟨_, _, hc, _, hns⟩ := sm_bms_entries
+  intro p hp sh t0 cs h ty desc diff dv groove w H
+  have hsrc : ∀ m ∈ (⟨setAttrs, [embBMS dec c mapAttrs lv]⟩ : Convert.Src).maps, Convert.srcMapOk m = true := by
+    intro m hm
+    simp only [List.mem_singleton] at hm
+    subst hm
+    exact srcMapOk_embBMS dec c mapAttrs lv
+  have hp1 : p.1 = embBMS dec c mapAttrs lv := by
+    have := (List.of_mem_zip hp).1
+    simpa using this
+  have hcols : ColsNonneg (ofSrcMap p.1) := by
+    rw [hp1, ofSrcMap_embBMS]
+    constructor
+    · intro x hx
+      simp only [ofBMSRead, List.mem_map] at hx
+      obtain ⟨y, _, rfl⟩ := hx
+      exact Int.natCast_nonneg _
+    · intro x hx
+      simp only [ofBMSRead, List.mem_map] at hx
+      obtain ⟨y, _, rfl⟩ := hx
+      exact Int.natCast_nonneg _
+  obtain ⟨ds, h1, h2, h3, h4, h5, h6, h7⟩ := convert_write_sm_partial _ hc hns _ k out hsrc hconv p hp hcols
+    sh t0 cs h ty desc diff dv groove w H
+  refine ⟨ds, h1, h2, h3, h4, h5, h6, ?_⟩
+  intro hd
+  have hcl := h7 hd
+  rw [hp1, ofSrcMap_embBMS] at hcl
+  exact ⟨objectsClose_exact_of_perm _ _ _ _ _ hra.1 hra.2 ⟨hcl.1, hcl.2.1⟩, hcl⟩
+
+/-- non-vacuity of the converter hypotheses of the two theorems above -/
+example :
+    let a : AChart := ⟨[(500, 0), (1000, 1)], [(2500, 0, 1000)], [(500, 120)]⟩
+    let sa : List (String × String) := [("background", "b"), ("title", "t"), ("title_translit", "t"), ("artist", "a"),
+      ("artist_translit", "a"), ("music", "m"), ("credit", "c"), ("sample_start", "0")]
+    let ma : List (String × String) := [("difficulty", "Hard"), ("chart_type", "dance-single"), ("difficulty_val", "1")]
+    let c : BMS.Chart := ⟨⟨[], [], [], [], [], [], 120, []⟩, [⟨0, ['0', '1'], 0⟩, ⟨3, [], 500⟩], [⟨1, ['0', '2'], 1000, 500⟩],
+      [⟨120, 4, 0⟩, ⟨150, 4, 2000⟩], []⟩
+    (match Convert.convert Convert.tables smToBMS (srcOfAbstract [a] none sa ma "<d>") 0 with
+     | .ok out => out.charts.map (fun t => (ofTChart t).hits) == [[(500, 0), (1000, 1)]]
+     | .error _ => false) = true ∧
+    (match Convert.convert Convert.tables bmsToSM ⟨[], [embBMS (fun _ => "s.wav") c [("title", "t"), ("artist", "a"), ("version", "v")] "<d>"]⟩ 0 with
+     | .ok out => out.charts.map ofTChart == [ofBMSRead c]
+     | .error _ => false) = true := by decide +kernel
 
 end Reamber.Pipeline
